@@ -7,6 +7,12 @@ variable {α : Type}
 
 /-! ### the conditional write -/
 
+/-- The Mergeable contract the memberlist store relies on ("implementations should be careful about
+not changing logical value when returning empty change"): a merge that reports no change leaves
+the stored value as it was. -/
+def Lawful (merge : Option α → α → α × Bool) : Prop :=
+  ∀ v out r, merge (some v) out = (r, false) → r = v
+
 /-- The write condition of each backend, as a proposition about the store and the held token. -/
 def Enabled (st : Store α) (k : Key) (idx : Nat) : Prop :=
   match st.kind with
@@ -14,8 +20,45 @@ def Enabled (st : Store α) (k : Key) (idx : Nat) : Prop :=
   | .etcd => st.ver k = idx
   | .ml => st.ver k = idx
 
-theorem condWrite_not_wrote {merge : Option α → α → Option α} {st st' : Store α} {k : Key} {idx : Nat}
-    {out : α} {oc : Outcome} (h : condWrite merge st k idx out = (st', oc)) (hoc : oc ≠ .wrote) : st' = st := by
+theorem ver_of_some {st : Store α} {k : Key} {e : Entry α} (h : st.ent k = some e) : st.ver k = e.tok := by
+  simp [Store.ver, h]
+
+theorem ver_of_none {st : Store α} {k : Key} (h : st.ent k = none) : st.ver k = 0 := by
+  simp [Store.ver, h]
+
+theorem val_of_some {st : Store α} {k : Key} {e : Entry α} (h : st.ent k = some e) : st.val k = some e.val := by
+  simp [Store.val, h]
+
+theorem val_of_none {st : Store α} {k : Key} (h : st.ent k = none) : st.val k = none := by
+  simp [Store.val, h]
+
+theorem set_self {st : Store α} {k : Key} {e : Entry α} (h : st.ent k = some e) : st.set k ⟨e.val, e.tok⟩ = st := by
+  cases st with
+  | mk kind cur ent =>
+    simp only [Store.set, Store.mk.injEq, true_and]
+    funext k'
+    by_cases hk : k' = k
+    · subst hk; simp only [if_true]; exact h.symm
+    · simp only [hk, if_false]
+
+/-- every conditional write keeps the kind of the store and touches no other key. -/
+theorem condWrite_frame {merge : Option α → α → α × Bool} {st st' : Store α} {k : Key} {idx : Nat}
+    {out : α} {oc : Outcome} (h : condWrite merge st k idx out = (st', oc)) :
+    st'.kind = st.kind ∧ ∀ k', k' ≠ k → st'.ent k' = st.ent k' := by
+  unfold condWrite at h
+  repeat' split at h
+  all_goals
+    simp only [Prod.mk.injEq] at h
+    rw [← h.1]
+    first
+      | exact ⟨rfl, fun _ _ => rfl⟩
+      | (refine ⟨rfl, fun k' hk => ?_⟩; simp [Store.set, hk])
+
+/-- a conditional write that does not succeed leaves the store as it was — for memberlist under the
+Mergeable contract (the merge ran in place on the stored object). -/
+theorem condWrite_not_wrote {merge : Option α → α → α × Bool} {st st' : Store α} {k : Key} {idx : Nat}
+    {out : α} {oc : Outcome} (hl : st.kind = .ml → Lawful merge)
+    (h : condWrite merge st k idx out = (st', oc)) (hoc : oc ≠ .wrote) : st' = st := by
   unfold condWrite at h
   split at h
   · split at h
@@ -26,20 +69,29 @@ theorem condWrite_not_wrote {merge : Option α → α → Option α} {st st' : S
   · split at h
     · simp only [Prod.mk.injEq] at h; exact h.1.symm
     · simp only [Prod.mk.injEq] at h; exact absurd h.2.symm hoc
-  · split at h
+  next hk =>
+    split at h
     · simp only [Prod.mk.injEq] at h; exact h.1.symm
     · split at h
-      · simp only [Prod.mk.injEq] at h; exact h.1.symm
-      · simp only [Prod.mk.injEq] at h; exact absurd h.2.symm hoc
+      · split at h
+        · simp only [Prod.mk.injEq] at h; exact absurd h.2.symm hoc
+        · simp only [Prod.mk.injEq] at h; exact h.1.symm
+      next e he =>
+        split at h
+        · simp only [Prod.mk.injEq] at h; exact absurd h.2.symm hoc
+        next r hm =>
+          simp only [Prod.mk.injEq] at h
+          have : r = e.val := hl hk _ _ _ hm
+          rw [← h.1, this]; exact set_self he
 
 /-- A successful conditional write: the condition held, exactly one entry changed; its token is
 `current+1` (consul) or `old version+1` (etcd, memberlist). -/
-theorem condWrite_wrote {merge : Option α → α → Option α} {st st' : Store α} {k : Key} {idx : Nat}
+theorem condWrite_wrote {merge : Option α → α → α × Bool} {st st' : Store α} {k : Key} {idx : Nat}
     {out : α} (h : condWrite merge st k idx out = (st', .wrote)) :
     Enabled st k idx ∧ ∃ v t c', st' = ⟨st.kind, c', fun k' => if k' = k then some ⟨v, t⟩ else st.ent k'⟩ ∧
       (st.kind = .consul → t = st.cur + 1 ∧ c' = st.cur + 1) ∧
       (st.kind ≠ .consul → t = st.ver k + 1 ∧ c' = st.cur) ∧
-      (st.kind ≠ .ml → v = out) ∧ (st.kind = .ml → merge (st.val k) out = some v) := by
+      (st.kind ≠ .ml → v = out) ∧ (st.kind = .ml → merge (st.val k) out = (v, true)) := by
   unfold condWrite at h
   split at h
   next hk =>
@@ -83,25 +135,37 @@ theorem condWrite_wrote {merge : Option α → α → Option α} {st st' : Store
     split at h
     · simp at h
     next hcond =>
+      have hen : Enabled st k idx := by simp only [Enabled, hk]; simpa using hcond
       split at h
-      · simp at h
-      next r hr =>
-        simp only [Prod.mk.injEq, and_true] at h
-        refine ⟨?_, r, st.ver k + 1, st.cur, ?_, ?_, ?_, ?_, ?_⟩
-        · simp only [Enabled, hk]; simpa using hcond
-        · rw [← h]; simp [Store.set, hk]
-        · intro hc; rw [hk] at hc; cases hc
-        · intro _; exact ⟨rfl, rfl⟩
-        · intro hne; exact absurd hk hne
-        · intro _; exact hr
+      next he =>
+        split at h
+        next r hm =>
+          simp only [Prod.mk.injEq, and_true] at h
+          refine ⟨hen, r, st.ver k + 1, st.cur, ?_, ?_, ?_, ?_, ?_⟩
+          · rw [← h, ver_of_none he]; simp [Store.set, hk]
+          · intro hc; rw [hk] at hc; cases hc
+          · intro _; exact ⟨rfl, rfl⟩
+          · intro hne; exact absurd hk hne
+          · intro _; rw [val_of_none he]; exact hm
+        · simp at h
+      next e he =>
+        split at h
+        next r hm =>
+          simp only [Prod.mk.injEq, and_true] at h
+          refine ⟨hen, r, st.ver k + 1, st.cur, ?_, ?_, ?_, ?_, ?_⟩
+          · rw [← h, ver_of_some he]; simp [Store.set, hk]
+          · intro hc; rw [hk] at hc; cases hc
+          · intro _; exact ⟨rfl, rfl⟩
+          · intro hne; exact absurd hk hne
+          · intro _; rw [val_of_some he]; exact hm
+        · simp at h
 
-theorem condWrite_outcome {merge : Option α → α → Option α} {st st' : Store α} {k : Key} {idx : Nat}
+theorem condWrite_outcome {merge : Option α → α → α × Bool} {st st' : Store α} {k : Key} {idx : Nat}
     {out : α} {oc : Outcome} (h : condWrite merge st k idx out = (st', oc)) :
     oc = .wrote ∨ oc = .conflict ∨ oc = .nochange := by
   unfold condWrite at h
   repeat' split at h
   all_goals (simp only [Prod.mk.injEq] at h; rw [← h.2]; simp)
-
 /-! ### store and phase invariants -/
 
 /-- tokens are positive; consul tokens never exceed `current`. -/
@@ -110,24 +174,12 @@ def StoreWF (st : Store α) : Prop :=
 
 /-- What a caller that is about to read / about to write knows about its key. -/
 def PhaseOK (st : Store α) : Phase α → Prop
-  | .reading cl _ _ idx =>
+  | .reading _ cl _ _ idx =>
     (st.ent cl.key = none → idx = 0) ∧ (∀ e, st.ent cl.key = some e → idx ≤ e.tok)
-  | .holding cl _ _ idx inp =>
+  | .holding _ cl _ _ idx inp =>
     (st.ent cl.key = none → inp = none ∧ idx = 0) ∧
     (∀ e, st.ent cl.key = some e → idx ≤ e.tok ∧ (e.tok = idx → inp = some e.val))
   | _ => True
-
-theorem ver_of_some {st : Store α} {k : Key} {e : Entry α} (h : st.ent k = some e) : st.ver k = e.tok := by
-  simp [Store.ver, h]
-
-theorem ver_of_none {st : Store α} {k : Key} (h : st.ent k = none) : st.ver k = 0 := by
-  simp [Store.ver, h]
-
-theorem val_of_some {st : Store α} {k : Key} {e : Entry α} (h : st.ent k = some e) : st.val k = some e.val := by
-  simp [Store.val, h]
-
-theorem val_of_none {st : Store α} {k : Key} (h : st.ent k = none) : st.val k = none := by
-  simp [Store.val, h]
 
 /-- the token of a successful write is fresh for its key. -/
 theorem write_fresh {st : Store α} {k : Key} {t c' : Nat} (hwf : StoreWF st)
@@ -164,7 +216,7 @@ theorem phaseOK_write {st : Store α} {k : Key} {v : α} {t c' : Nat} {p : Phase
   | idle => trivial
   | mreading => trivial
   | mholding => trivial
-  | reading cl cid att idx =>
+  | reading q cl cid att idx =>
     obtain ⟨h1, h2⟩ := hp
     simp only [PhaseOK]
     by_cases hk : cl.key = k
@@ -175,7 +227,7 @@ theorem phaseOK_write {st : Store α} {k : Key} {v : α} {t c' : Nat} {p : Phase
       | none => have := h1 (hk ▸ hent); omega
       | some e0 => have := h2 e0 (hk ▸ hent); rw [ver_of_some hent] at hfresh; omega
     · simp only [hk, if_false]; exact ⟨h1, h2⟩
-  | holding cl cid att idx inp =>
+  | holding q cl cid att idx inp =>
     obtain ⟨h1, h2⟩ := hp
     simp only [PhaseOK]
     by_cases hk : cl.key = k
@@ -190,8 +242,8 @@ theorem phaseOK_write {st : Store α} {k : Key} {v : α} {t c' : Nat} {p : Phase
     · simp only [hk, if_false]; exact ⟨h1, h2⟩
 
 /-- If the conditional write of a holder succeeds, the value it applied `f` to is the stored value. -/
-theorem input_current {st : Store α} {cl : Call α} {cid att idx : Nat} {inp : Option α}
-    (hwf : StoreWF st) (hp : PhaseOK st (.holding cl cid att idx inp)) (hen : Enabled st cl.key idx)
+theorem input_current {st : Store α} {q : Nat} {cl : Call α} {cid att idx : Nat} {inp : Option α}
+    (hwf : StoreWF st) (hp : PhaseOK st (.holding q cl cid att idx inp)) (hen : Enabled st cl.key idx)
     : inp = st.val cl.key := by
   obtain ⟨h1, h2⟩ := hp
   cases hent : st.ent cl.key with
@@ -214,9 +266,15 @@ theorem setPh_ph_self (s : Sys α) (c : Nat) (p : Phase α) : (s.setPh c p).ph c
 theorem setPh_ph_other (s : Sys α) (c c' : Nat) (p : Phase α) (h : c' ≠ c) : (s.setPh c p).ph c' = s.ph c' := by
   simp [Sys.setPh, h]
 
-theorem retryPhase_cases (cfg : Cfg α) (kind : Backend) (cl : Call α) (cid att idx : Nat) :
-    (retryPhase cfg kind cl cid att idx = (.idle, some false)) ∨
-    (∃ idx', retryPhase cfg kind cl cid att idx = (.reading cl cid (att + 1) idx', none) ∧ (idx' = idx ∨ idx' = 0)) := by
+theorem setStore_self (s : Sys α) (i : Nat) (st : Store α) : (s.setStore i st).stores i = st := by
+  simp [Sys.setStore]
+
+theorem setStore_other (s : Sys α) (i j : Nat) (st : Store α) (h : j ≠ i) : (s.setStore i st).stores j = s.stores j := by
+  simp [Sys.setStore, h]
+
+theorem retryPhase_cases (cfg : Cfg α) (kind : Backend) (p : Nat) (cl : Call α) (cid att idx : Nat) :
+    (retryPhase cfg kind p cl cid att idx = (.idle, some false)) ∨
+    (∃ idx', retryPhase cfg kind p cl cid att idx = (.reading p cl cid (att + 1) idx', none) ∧ (idx' = idx ∨ idx' = 0)) := by
   unfold retryPhase
   split
   · right
@@ -226,89 +284,117 @@ theorem retryPhase_cases (cfg : Cfg α) (kind : Backend) (cl : Call α) (cid att
     · exact ⟨0, rfl, Or.inr rfl⟩
   · left; rfl
 
-/-- What one apply + conditional-write step does. -/
-theorem commit_spec (cfg : Cfg α) (s : Sys α) (c : Nat) (cl : Call α) (cid att idx : Nat) (inp : Option α) :
-    (commit cfg s c cl cid att idx inp).sec = s.sec ∧
-    (commit cfg s c cl cid att idx inp).nextCid = s.nextCid ∧
-    (∀ c', c' ≠ c → (commit cfg s c cl cid att idx inp).ph c' = s.ph c') ∧
-    ∃ r, (commit cfg s c cl cid att idx inp).log = r :: s.log ∧
-      r.caller = c ∧ r.cid = cid ∧ r.key = cl.key ∧ r.idx = idx ∧ r.inp = inp ∧ r.before = s.pri.val cl.key ∧
+/-- What one apply + conditional-write step of caller `c` on its primary store `p` does. -/
+theorem commit_spec (cfg : Cfg α) (s : Sys α) (c p : Nat) (cl : Call α) (cid att idx : Nat) (inp : Option α)
+    (s' : Sys α) (hs : s' = commit cfg s c p cl cid att idx inp) :
+    s'.nextCid = s.nextCid ∧ s'.clients = s.clients ∧ s'.primary = s.primary ∧
+    (∀ c', c' ≠ c → s'.ph c' = s.ph c') ∧ (∀ i, i ≠ p → s'.stores i = s.stores i) ∧
+    ∃ r, s'.log = r :: s.log ∧
+      r.caller = c ∧ r.cid = cid ∧ r.store = p ∧ r.key = cl.key ∧ r.idx = idx ∧ r.inp = inp ∧
+      r.before = (s.stores p).val cl.key ∧ r.after = (s'.stores p).val cl.key ∧
       ((r.outcome = .wrote ∧
           (∃ out retry, cl.f att inp = .write out retry ∧ r.out = some out ∧
-            condWrite cfg.merge s.pri cl.key idx out = ((commit cfg s c cl cid att idx inp).pri, .wrote)) ∧
-          r.after = (commit cfg s c cl cid att idx inp).pri.val cl.key ∧ r.done = some true ∧
-          ((commit cfg s c cl cid att idx inp).ph c = .idle ∨
-            ∃ v, (commit cfg s c cl cid att idx inp).ph c = .mreading cl.key v 0 0)) ∨
-       (r.outcome ≠ .wrote ∧ (commit cfg s c cl cid att idx inp).pri = s.pri ∧ r.after = r.before ∧
-          (r.outcome = .declined → r.done = some true) ∧
-          (((commit cfg s c cl cid att idx inp).ph c = .idle ∧ r.done ≠ none) ∨
-            (∃ idx', (commit cfg s c cl cid att idx inp).ph c = .reading cl cid (att + 1) idx' ∧
-              (idx' = idx ∨ idx' = 0) ∧ r.done = none)))) := by
+            condWrite cfg.merge (s.stores p) cl.key idx out = (s'.stores p, .wrote) ∧
+            s'.ph c = mirrorPhase cfg s p cl out) ∧ r.done = some true) ∨
+       (r.outcome ≠ .wrote ∧
+          (s'.stores p = s.stores p ∨
+            ∃ out oc, oc ≠ .wrote ∧ condWrite cfg.merge (s.stores p) cl.key idx out = (s'.stores p, oc)) ∧
+          (r.outcome = .declined → r.done = some true) ∧ (r.done = some true → r.outcome = .declined) ∧
+          ((s'.ph c = .idle ∧ r.done ≠ none) ∨
+            (∃ idx', s'.ph c = .reading p cl cid (att + 1) idx' ∧ (idx' = idx ∨ idx' = 0) ∧ r.done = none)))) := by
+  subst hs
   unfold commit
   split
   next retry hf =>
-    -- f failed
     cases retry with
     | false =>
       simp only [Bool.false_eq_true, if_false]
-      refine ⟨rfl, rfl, fun c' h => setPh_ph_other _ _ _ _ h, _, rfl, rfl, rfl, rfl, rfl, rfl, rfl, Or.inr ?_⟩
-      refine ⟨by simp, rfl, rfl, by simp, Or.inl ⟨setPh_ph_self _ _ _, by simp⟩⟩
+      refine ⟨rfl, rfl, rfl, fun c' h => setPh_ph_other _ _ _ _ h, fun _ _ => rfl, _, rfl, rfl, rfl, rfl, rfl, rfl, rfl, rfl, rfl, Or.inr ?_⟩
+      exact ⟨by simp, Or.inl rfl, by simp, by simp, Or.inl ⟨setPh_ph_self _ _ _, by simp⟩⟩
     | true =>
       simp only [if_true]
-      rcases retryPhase_cases cfg s.pri.kind cl cid att idx with h | ⟨idx', h, hi⟩
+      rcases retryPhase_cases cfg (s.stores p).kind p cl cid att idx with h | ⟨idx', h, hi⟩
       · rw [h]
-        refine ⟨rfl, rfl, fun c' h => setPh_ph_other _ _ _ _ h, _, rfl, rfl, rfl, rfl, rfl, rfl, rfl, Or.inr ?_⟩
-        refine ⟨by simp, rfl, rfl, by simp, Or.inl ⟨setPh_ph_self _ _ _, by simp⟩⟩
+        refine ⟨rfl, rfl, rfl, fun c' h => setPh_ph_other _ _ _ _ h, fun _ _ => rfl, _, rfl, rfl, rfl, rfl, rfl, rfl, rfl, rfl, rfl, Or.inr ?_⟩
+        exact ⟨by simp, Or.inl rfl, by simp, by simp, Or.inl ⟨setPh_ph_self _ _ _, by simp⟩⟩
       · rw [h]
-        refine ⟨rfl, rfl, fun c' h => setPh_ph_other _ _ _ _ h, _, rfl, rfl, rfl, rfl, rfl, rfl, rfl, Or.inr ?_⟩
-        refine ⟨by simp, rfl, rfl, by simp, Or.inr ⟨idx', setPh_ph_self _ _ _, hi, rfl⟩⟩
+        refine ⟨rfl, rfl, rfl, fun c' h => setPh_ph_other _ _ _ _ h, fun _ _ => rfl, _, rfl, rfl, rfl, rfl, rfl, rfl, rfl, rfl, rfl, Or.inr ?_⟩
+        exact ⟨by simp, Or.inl rfl, by simp, by simp, Or.inr ⟨idx', setPh_ph_self _ _ _, hi, rfl⟩⟩
   next hf =>
-    -- f declined
-    refine ⟨rfl, rfl, fun c' h => setPh_ph_other _ _ _ _ h, _, rfl, rfl, rfl, rfl, rfl, rfl, rfl, Or.inr ?_⟩
-    refine ⟨by simp, rfl, rfl, by simp, Or.inl ⟨setPh_ph_self _ _ _, by simp⟩⟩
+    refine ⟨rfl, rfl, rfl, fun c' h => setPh_ph_other _ _ _ _ h, fun _ _ => rfl, _, rfl, rfl, rfl, rfl, rfl, rfl, rfl, rfl, rfl, Or.inr ?_⟩
+    exact ⟨by simp, Or.inl rfl, by simp, by simp, Or.inl ⟨setPh_ph_self _ _ _, by simp⟩⟩
   next out retry hf =>
     split
     next st hcw =>
-      refine ⟨rfl, rfl, fun c' h => setPh_ph_other _ _ _ _ h, _, rfl, rfl, rfl, rfl, rfl, rfl, rfl, Or.inl ?_⟩
-      refine ⟨rfl, ⟨out, retry, hf, rfl, hcw⟩, rfl, rfl, ?_⟩
-      simp only [mirrorPhase]
-      split
-      · right; exact ⟨out, setPh_ph_self _ _ _⟩
-      · left; exact setPh_ph_self _ _ _
+      have hst : ((s.setStore p st).setPh c (mirrorPhase cfg s p cl out)).stores p = st := setStore_self _ _ _
+      refine ⟨rfl, rfl, rfl, fun c' h => setPh_ph_other _ _ _ _ h, fun i hi => setStore_other _ _ _ _ hi, _, rfl, rfl, rfl, rfl, rfl,
+        rfl, rfl, rfl, ?_, Or.inl ?_⟩
+      · simp only; rw [hst]
+      · refine ⟨rfl, ⟨out, retry, hf, rfl, ?_, setPh_ph_self _ _ _⟩, rfl⟩
+        simp only; rw [hst]; exact hcw
     next st oc hne hcw =>
       have hoc : oc ≠ .wrote := by
         intro h; subst h; exact hne rfl
-      have hst := condWrite_not_wrote hcw hoc
-      cases hr : retryable s.pri.kind retry with
+      have hnd : oc ≠ .declined := by
+        intro hd; rcases condWrite_outcome hcw with h | h | h <;> rw [h] at hd <;> cases hd
+      cases hr : retryable (s.stores p).kind retry with
       | false =>
         simp only [Bool.false_eq_true, if_false]
-        refine ⟨rfl, rfl, fun c' h => setPh_ph_other _ _ _ _ h, _, rfl, rfl, rfl, rfl, rfl, rfl, rfl, Or.inr ?_⟩
-        refine ⟨hoc, rfl, rfl, ?_, Or.inl ⟨setPh_ph_self _ _ _, by simp⟩⟩
-        intro hd; simp only at hd; rcases condWrite_outcome hcw with h | h | h <;> rw [h] at hd <;> cases hd
+        have hst : ((s.setStore p st).setPh c Phase.idle).stores p = st := setStore_self _ _ _
+        refine ⟨rfl, rfl, rfl, fun c' h => setPh_ph_other _ _ _ _ h, fun i hi => setStore_other _ _ _ _ hi, _, rfl, rfl, rfl, rfl, rfl,
+          rfl, rfl, rfl, ?_, Or.inr ?_⟩
+        · simp only; rw [hst]
+        · refine ⟨hoc, Or.inr ⟨out, oc, hoc, ?_⟩, fun hd => absurd hd hnd, by simp, Or.inl ⟨setPh_ph_self _ _ _, by simp⟩⟩
+          rw [hst]; exact hcw
       | true =>
         simp only [if_true]
-        rcases retryPhase_cases cfg s.pri.kind cl cid att idx with h | ⟨idx', h, hi⟩
+        rcases retryPhase_cases cfg (s.stores p).kind p cl cid att idx with h | ⟨idx', h, hi⟩
         · rw [h]
-          refine ⟨rfl, rfl, fun c' h => setPh_ph_other _ _ _ _ h, _, rfl, rfl, rfl, rfl, rfl, rfl, rfl, Or.inr ?_⟩
-          refine ⟨hoc, rfl, rfl, ?_, Or.inl ⟨setPh_ph_self _ _ _, by simp⟩⟩
-          intro hd; simp only at hd; rcases condWrite_outcome hcw with h | h | h <;> rw [h] at hd <;> cases hd
+          have hst : ((s.setStore p st).setPh c Phase.idle).stores p = st := setStore_self _ _ _
+          refine ⟨rfl, rfl, rfl, fun c' h => setPh_ph_other _ _ _ _ h, fun i hi => setStore_other _ _ _ _ hi, _, rfl, rfl, rfl, rfl, rfl,
+            rfl, rfl, rfl, ?_, Or.inr ?_⟩
+          · simp only; rw [hst]
+          · refine ⟨hoc, Or.inr ⟨out, oc, hoc, ?_⟩, fun hd => absurd hd hnd, by simp, Or.inl ⟨setPh_ph_self _ _ _, by simp⟩⟩
+            rw [hst]; exact hcw
         · rw [h]
-          refine ⟨rfl, rfl, fun c' h => setPh_ph_other _ _ _ _ h, _, rfl, rfl, rfl, rfl, rfl, rfl, rfl, Or.inr ?_⟩
-          refine ⟨hoc, rfl, rfl, ?_, Or.inr ⟨idx', setPh_ph_self _ _ _, hi, rfl⟩⟩
-          intro hd; simp only at hd; rcases condWrite_outcome hcw with h | h | h <;> rw [h] at hd <;> cases hd
+          have hst : ((s.setStore p st).setPh c (Phase.reading p cl cid (att + 1) idx')).stores p = st := setStore_self _ _ _
+          refine ⟨rfl, rfl, rfl, fun c' h => setPh_ph_other _ _ _ _ h, fun i hi => setStore_other _ _ _ _ hi, _, rfl, rfl, rfl, rfl, rfl,
+            rfl, rfl, rfl, ?_, Or.inr ?_⟩
+          · simp only; rw [hst]
+          · refine ⟨hoc, Or.inr ⟨out, oc, hoc, ?_⟩, fun hd => absurd hd hnd, by simp, Or.inr ⟨idx', setPh_ph_self _ _ _, hi, rfl⟩⟩
+            rw [hst]; exact hcw
 
-theorem mcommit_spec (cfg : Cfg α) (s : Sys α) (c : Nat) (k : Key) (v : α) (att idx : Nat) :
-    (mcommit cfg s c k v att idx).pri = s.pri ∧ (mcommit cfg s c k v att idx).log = s.log ∧
-    (mcommit cfg s c k v att idx).nextCid = s.nextCid ∧
-    (∀ c', c' ≠ c → (mcommit cfg s c k v att idx).ph c' = s.ph c') ∧
-    ((mcommit cfg s c k v att idx).ph c = .idle ∨
-      ∃ att' idx', (mcommit cfg s c k v att idx).ph c = .mreading k v att' idx') := by
+/-- under the Mergeable contract an attempt that did not write left its store as it was. -/
+theorem nonwrote_store {cfg : Cfg α} {st st' : Store α} {k : Key} {idx : Nat}
+    (hl : st.kind = .ml → Lawful cfg.merge)
+    (h : st' = st ∨ ∃ out oc, oc ≠ .wrote ∧ condWrite cfg.merge st k idx out = (st', oc)) : st' = st := by
+  rcases h with h | ⟨out, oc, hoc, hcw⟩
+  · exact h
+  · exact condWrite_not_wrote hl hcw hoc
+
+def inMirror : Phase α → Prop
+  | .mreading .. => True
+  | .mholding .. => True
+  | _ => False
+
+/-- One conditional write of a mirror loop on store `t`: only store `t` may change, the log and the
+other callers are untouched, and the caller stays in the mirror loop (same store again, or the
+next one) or finishes. -/
+theorem mcommit_spec (cfg : Cfg α) (s : Sys α) (c t : Nat) (rest : List Nat) (k : Key) (v : α) (att idx : Nat)
+    (s' : Sys α) (hs : s' = mcommit cfg s c t rest k v att idx) :
+    s'.log = s.log ∧ s'.nextCid = s.nextCid ∧ s'.clients = s.clients ∧ s'.primary = s.primary ∧
+    (∀ c', c' ≠ c → s'.ph c' = s.ph c') ∧ (∀ i, i ≠ t → s'.stores i = s.stores i) ∧
+    (s'.ph c = mirrorNext cfg rest k v ∨ ∃ att' idx', s'.ph c = .mreading t rest k v att' idx') := by
+  subst hs
   unfold mcommit
   split
-  · exact ⟨rfl, rfl, rfl, fun c' h => setPh_ph_other _ _ _ _ h, Or.inl (setPh_ph_self _ _ _)⟩
+  · exact ⟨rfl, rfl, rfl, rfl, fun c' h => setPh_ph_other _ _ _ _ h, fun i hi => setStore_other _ _ _ _ hi,
+      Or.inl (setPh_ph_self _ _ _)⟩
   · split
-    · exact ⟨rfl, rfl, rfl, fun c' h => setPh_ph_other _ _ _ _ h, Or.inr ⟨_, _, setPh_ph_self _ _ _⟩⟩
-    · exact ⟨rfl, rfl, rfl, fun c' h => setPh_ph_other _ _ _ _ h, Or.inl (setPh_ph_self _ _ _)⟩
+    · exact ⟨rfl, rfl, rfl, rfl, fun c' h => setPh_ph_other _ _ _ _ h, fun i hi => setStore_other _ _ _ _ hi,
+        Or.inr ⟨_, _, setPh_ph_self _ _ _⟩⟩
+    · exact ⟨rfl, rfl, rfl, rfl, fun c' h => setPh_ph_other _ _ _ _ h, fun i hi => setStore_other _ _ _ _ hi,
+        Or.inl (setPh_ph_self _ _ _)⟩
 
 /-! ### the chain of successful writes -/
 
@@ -322,19 +408,90 @@ def ChainR (init : Option α) : List (Rec α) → Option α → Prop
   | [], fin => fin = init
   | r :: older, fin => fin = r.after ∧ ChainR init older r.inp
 
-structure Inv (init : Key → Option α) (kind : Backend) (s : Sys α) : Prop where
-  kind_eq : s.pri.kind = kind
-  wf : StoreWF s.pri
-  phases : ∀ c, PhaseOK s.pri (s.ph c)
-  chain : ∀ k, ChainR (init k) (writesOn k s.log) (s.pri.val k)
+/-- per-record facts: what a record says about the step that produced it. -/
+structure RecFacts (kind : Backend) (merge : Option α → α → α × Bool) (r : Rec α) : Prop where
+  /-- a successful write ends the CAS loop with nil; what it leaves is `f`'s output (consul, etcd)
+  or the merge of `f`'s output into the value found (memberlist) -/
+  wrote : r.outcome = .wrote → r.done = some true ∧ ∃ out, r.out = some out ∧
+    (kind ≠ .ml → r.after = some out) ∧ (kind = .ml → ∃ v, merge r.before out = (v, true) ∧ r.after = some v)
+  /-- any other attempt leaves the stored value as it found it -/
+  other : r.outcome ≠ .wrote → r.after = r.before
+  /-- a declined call returns nil -/
+  declined : r.outcome = .declined → r.done = some true
+  /-- the CAS loop returns nil only after a successful write or when the function declined -/
+  success : r.done = some true → r.outcome = .wrote ∨ r.outcome = .declined
+
+/-- Which store a caller works on, relative to a fixed position `p`: primary loops run on `p`, mirror
+loops run on other stores only. -/
+def PhaseP (p : Nat) : Phase α → Prop
+  | .idle => True
+  | .reading q .. => q = p
+  | .holding q .. => q = p
+  | .mreading t rest .. => t ≠ p ∧ p ∉ rest
+  | .mholding t rest .. => t ≠ p ∧ p ∉ rest
+
+def NoSwitch : Ev α → Prop
+  | .switch _ => False
+  | _ => True
+
+instance : DecidablePred (NoSwitch : Ev α → Prop) := fun ev =>
+  match ev with
+  | .switch _ => isFalse (fun h => h)
+  | .begin .. => isTrue trivial
+  | .step _ => isTrue trivial
+
+theorem mirrorTargets_not_mem (clients : List Nat) (p : Nat) : p ∉ mirrorTargets clients p := by
+  simp [mirrorTargets]
+
+theorem mirrorTargets_mem (clients : List Nat) (p c : Nat) :
+    c ∈ mirrorTargets clients p ↔ (c ∈ clients ∧ c ≠ p) := by
+  simp [mirrorTargets]
+
+theorem mirrorNext_phaseP (cfg : Cfg α) (p : Nat) (ts : List Nat) (k : Key) (v : α) (h : p ∉ ts) :
+    PhaseP p (mirrorNext cfg ts k v) := by
+  unfold mirrorNext
+  split
+  · trivial
+  next t rest =>
+    split
+    · simp only [List.mem_cons, not_or] at h
+      exact ⟨fun hh => h.1 hh.symm, h.2⟩
+    · trivial
+
+theorem mirrorPhase_phaseP (cfg : Cfg α) (s : Sys α) (p : Nat) (cl : Call α) (out : α) :
+    PhaseP p (mirrorPhase cfg s p cl out) := by
+  unfold mirrorPhase
+  split
+  · exact mirrorNext_phaseP cfg p _ _ _ (mirrorTargets_not_mem _ _)
+  · trivial
+
+theorem mirrorNext_not_inflight (cfg : Cfg α) (ts : List Nat) (k : Key) (v : α) :
+    mirrorNext cfg ts k v = .idle ∨ ∃ t rest, mirrorNext cfg ts k v = .mreading t rest k v 0 0 := by
+  unfold mirrorNext
+  split
+  · exact Or.inl rfl
+  · split
+    · exact Or.inr ⟨_, _, rfl⟩
+    · exact Or.inl rfl
+
+theorem mirrorPhase_cases (cfg : Cfg α) (s : Sys α) (p : Nat) (cl : Call α) (out : α) :
+    mirrorPhase cfg s p cl out = .idle ∨ ∃ t rest, mirrorPhase cfg s p cl out = .mreading t rest cl.key out 0 0 := by
+  unfold mirrorPhase
+  split
+  · exact mirrorNext_not_inflight cfg _ _ _
+  · exact Or.inl rfl
+
+/-- The invariant, relative to the store at position `p` that every call uses as primary. -/
+structure Inv (merge : Option α → α → α × Bool) (init : Key → Option α) (kind : Backend) (p : Nat) (s : Sys α) : Prop where
+  primary : s.primary = p
+  phP : ∀ c, PhaseP p (s.ph c)
+  kind_eq : (s.stores p).kind = kind
+  wf : StoreWF (s.stores p)
+  phases : ∀ c, PhaseOK (s.stores p) (s.ph c)
+  chain : ∀ k, ChainR (init k) (writesOn k s.log) ((s.stores p).val k)
   /-- every successful write was applied to the value that was stored at the moment of the write -/
   current : ∀ r ∈ s.log, r.outcome = .wrote → r.inp = r.before
-
-theorem inv_same {init : Key → Option α} {kind : Backend} {s s' : Sys α} (h : Inv init kind s)
-    (hpri : s'.pri = s.pri) (hlog : s'.log = s.log) (hph : ∀ c, PhaseOK s.pri (s'.ph c)) : Inv init kind s' := by
-  refine ⟨by rw [hpri]; exact h.kind_eq, by rw [hpri]; exact h.wf, by rw [hpri]; exact hph, ?_, ?_⟩
-  · rw [hpri, hlog]; exact h.chain
-  · rw [hlog]; exact h.current
+  facts : ∀ r ∈ s.log, RecFacts kind merge r ∧ r.store = p
 
 theorem writesOn_cons_other {k : Key} {r : Rec α} {log : List (Rec α)}
     (h : ¬ (r.key = k ∧ r.outcome = .wrote)) : writesOn k (r :: log) = writesOn k log := by
@@ -348,78 +505,125 @@ theorem writesOn_cons_self {k : Key} {r : Rec α} {log : List (Rec α)}
   rw [List.filter_cons_of_pos]
   simpa using h
 
-theorem inv_next {init : Key → Option α} {kind : Backend} (cfg : Cfg α) {s : Sys α} (h : Inv init kind s)
-    (ev : Ev α) : Inv init kind (next cfg s ev) := by
+/-- a step that leaves store `p` and the log alone preserves the invariant, given the new phases. -/
+theorem inv_same {merge : Option α → α → α × Bool} {init : Key → Option α} {kind : Backend} {p : Nat} {s s' : Sys α}
+    (h : Inv merge init kind p s) (hprim : s'.primary = s.primary) (hst : s'.stores p = s.stores p)
+    (hlog : s'.log = s.log) (hphP : ∀ c, PhaseP p (s'.ph c)) (hph : ∀ c, PhaseOK (s.stores p) (s'.ph c)) :
+    Inv merge init kind p s' := by
+  refine ⟨hprim.trans h.primary, hphP, by rw [hst]; exact h.kind_eq, by rw [hst]; exact h.wf, by rw [hst]; exact hph, ?_, ?_, ?_⟩
+  · rw [hst, hlog]; exact h.chain
+  · rw [hlog]; exact h.current
+  · rw [hlog]; exact h.facts
+
+theorem inv_next {init : Key → Option α} {kind : Backend} {p : Nat} (cfg : Cfg α) {s : Sys α}
+    (hl : kind = .ml → Lawful cfg.merge) (h : Inv cfg.merge init kind p s) (ev : Ev α) (hev : NoSwitch ev) :
+    Inv cfg.merge init kind p (next cfg s ev) := by
   cases ev with
+  | switch ix => exact absurd hev id
   | begin c cl =>
     simp only [next]
     split
-    · refine inv_same h rfl rfl ?_
-      intro c'
-      by_cases hc : c' = c
-      · subst hc; simp only [Sys.setPh, if_true]
-        exact ⟨fun _ => rfl, fun e _ => Nat.zero_le _⟩
-      · simp only [Sys.setPh, hc, if_false]; exact h.phases c'
+    · refine inv_same h rfl rfl rfl ?_ ?_
+      · intro c'
+        by_cases hc : c' = c
+        · subst hc; simp only [Sys.setPh, if_true]; exact h.primary
+        · simp only [Sys.setPh, hc, if_false]; exact h.phP c'
+      · intro c'
+        by_cases hc : c' = c
+        · subst hc; simp only [Sys.setPh, if_true]
+          exact ⟨fun _ => rfl, fun e _ => Nat.zero_le _⟩
+        · simp only [Sys.setPh, hc, if_false]; exact h.phases c'
     · exact h
   | step c =>
     simp only [next]
     split
     · exact h
-    next cl cid att idx hph =>
+    next q cl cid att idx hph =>
       -- the read
-      refine inv_same h rfl rfl ?_
-      intro c'
-      by_cases hc : c' = c
-      · subst hc; simp only [Sys.setPh, if_true]
-        have hp := h.phases c'; rw [hph] at hp
-        obtain ⟨h1, h2⟩ := hp
-        refine ⟨?_, ?_⟩
-        · intro hn
-          refine ⟨val_of_none hn, ?_⟩
-          unfold readIdx; rw [hn]; simp only
-          split
-          · rfl
-          · exact h1 hn
-        · intro e he
-          unfold readIdx; rw [he]; simp only
-          exact ⟨Nat.le_refl _, fun _ => val_of_some he⟩
-      · simp only [Sys.setPh, hc, if_false]; exact h.phases c'
-    next cl cid att idx inp hph =>
+      have hq : q = p := by have := h.phP c; rw [hph] at this; exact this
+      subst hq
+      refine inv_same h rfl rfl rfl ?_ ?_
+      · intro c'
+        by_cases hc : c' = c
+        · subst hc; simp only [Sys.setPh, if_true]; rfl
+        · simp only [Sys.setPh, hc, if_false]; exact h.phP c'
+      · intro c'
+        by_cases hc : c' = c
+        · subst hc; simp only [Sys.setPh, if_true]
+          have hp := h.phases c'; rw [hph] at hp
+          obtain ⟨h1, h2⟩ := hp
+          refine ⟨?_, ?_⟩
+          · intro hn
+            refine ⟨val_of_none hn, ?_⟩
+            unfold readIdx; rw [hn]; simp only
+            split
+            · rfl
+            · exact h1 hn
+          · intro e he
+            unfold readIdx; rw [he]; simp only
+            exact ⟨Nat.le_refl _, fun _ => val_of_some he⟩
+        · simp only [Sys.setPh, hc, if_false]; exact h.phases c'
+    next q cl cid att idx inp hph =>
       -- apply f + conditional write
-      obtain ⟨_, _, hoth, r, hlog, _, _, hkey, hidx, hinp, hbefore, hcase⟩ := commit_spec cfg s c cl cid att idx inp
+      have hq : q = p := by have := h.phP c; rw [hph] at this; exact this
+      subst hq
+      obtain ⟨_, _, hprim, hoth, _, r, hlog, _, _, hstore, hkey, hidx, hinp, hbefore, hafter, hcase⟩ :=
+        commit_spec cfg s c q cl cid att idx inp _ rfl
       have hp := h.phases c; rw [hph] at hp
-      rcases hcase with ⟨hoc, ⟨out, retry, _, _, hcw⟩, hafter, _, hphc⟩ | ⟨hoc, hpri, _, _, hphc⟩
+      have hl' : (s.stores q).kind = .ml → Lawful cfg.merge := fun hk => hl (h.kind_eq ▸ hk)
+      rcases hcase with ⟨hoc, ⟨out, retry, _, hout, hcw, hphc⟩, hdone⟩ | ⟨hoc, hsto, hdecl, hsucc, hphc⟩
       · -- wrote
-        obtain ⟨hen, v, t, c', hst, hcons, hncons, _, _⟩ := condWrite_wrote hcw
+        obtain ⟨hen, v, t, c', hst, hcons, hncons, hv, hm⟩ := condWrite_wrote hcw
         obtain ⟨hfresh, _, _⟩ := write_fresh h.wf hcons hncons
-        have hcur : inp = s.pri.val cl.key := input_current h.wf hp hen
-        refine ⟨by rw [hst]; exact h.kind_eq, by rw [hst]; exact wf_write h.wf hcons hncons, ?_, ?_, ?_⟩
+        have hcur : inp = (s.stores q).val cl.key := input_current h.wf hp hen
+        have hval : ((commit cfg s c q cl cid att idx inp).stores q).val cl.key = some v := by
+          rw [hst]; simp [Store.val]
+        refine ⟨hprim.trans h.primary, ?_, by rw [hst]; exact h.kind_eq, by rw [hst]; exact wf_write h.wf hcons hncons, ?_, ?_, ?_, ?_⟩
+        · intro c'
+          by_cases hc : c' = c
+          · subst hc; rw [hphc]; exact mirrorPhase_phaseP cfg s q cl out
+          · rw [hoth c' hc]; exact h.phP c'
         · intro c'
           rw [hst]
           by_cases hc : c' = c
           · subst hc
-            rcases hphc with hi | ⟨v', hi⟩ <;> rw [hi] <;> trivial
+            rcases mirrorPhase_cases cfg s q cl out with hi | ⟨t', rest, hi⟩ <;> rw [hphc, hi] <;> trivial
           · rw [hoth c' hc]; exact phaseOK_write hfresh (h.phases c')
         · intro k
           rw [hlog]
-          have hchain := h.chain
           by_cases hk : cl.key = k
           · rw [writesOn_cons_self ⟨hkey.trans hk, hoc⟩]
             refine ⟨by rw [hafter, hk], ?_⟩
-            rw [hinp, hcur, hk]; exact hchain k
+            rw [hinp, hcur, hk]; exact h.chain k
           · rw [writesOn_cons_other (fun hh => hk (hkey.symm.trans hh.1))]
-            have : (commit cfg s c cl cid att idx inp).pri.val k = s.pri.val k := by
+            have : ((commit cfg s c q cl cid att idx inp).stores q).val k = (s.stores q).val k := by
               rw [hst]; simp [Store.val, Ne.symm hk]
-            rw [this]; exact hchain k
+            rw [this]; exact h.chain k
         · intro r' hr'
           rw [hlog] at hr'
           rcases List.mem_cons.1 hr' with rfl | hr'
           · intro _; rw [hinp, hbefore]; exact hcur
           · exact h.current r' hr'
+        · intro r' hr'
+          rw [hlog] at hr'
+          rcases List.mem_cons.1 hr' with rfl | hr'
+          · refine ⟨⟨fun _ => ⟨hdone, out, hout, ?_, ?_⟩, fun hh => absurd hoc hh, fun hh => (by rw [hoc] at hh; cases hh),
+              fun _ => Or.inl hoc⟩, hstore⟩
+            · intro hk; rw [hafter, hval, hv (h.kind_eq ▸ hk)]
+            · intro hk; exact ⟨v, by rw [hbefore]; exact hm (h.kind_eq.trans hk), by rw [hafter, hval]⟩
+          · exact h.facts r' hr'
       · -- nothing written
-        refine ⟨by rw [hpri]; exact h.kind_eq, by rw [hpri]; exact h.wf, ?_, ?_, ?_⟩
+        have hsame := nonwrote_store hl' hsto
+        refine ⟨hprim.trans h.primary, ?_, by rw [hsame]; exact h.kind_eq, by rw [hsame]; exact h.wf, ?_, ?_, ?_, ?_⟩
         · intro c'
-          rw [hpri]
+          by_cases hc : c' = c
+          · subst hc
+            rcases hphc with ⟨hi, _⟩ | ⟨idx', hi, _, _⟩ <;> rw [hi]
+            · trivial
+            · rfl
+          · rw [hoth c' hc]; exact h.phP c'
+        · intro c'
+          rw [hsame]
           by_cases hc : c' = c
           · subst hc
             rcases hphc with ⟨hi, _⟩ | ⟨idx', hi, hidx', _⟩
@@ -435,211 +639,53 @@ theorem inv_next {init : Key → Option α} {kind : Backend} (cfg : Cfg α) {s :
                 · exact Nat.zero_le _
           · rw [hoth c' hc]; exact h.phases c'
         · intro k
-          rw [hlog]
-          rw [writesOn_cons_other (fun hh => hoc hh.2), hpri]
+          rw [hlog, writesOn_cons_other (fun hh => hoc hh.2), hsame]
           exact h.chain k
         · intro r' hr'
           rw [hlog] at hr'
           rcases List.mem_cons.1 hr' with rfl | hr'
           · intro hw; exact absurd hw hoc
           · exact h.current r' hr'
-    next k v att idx hph =>
-      refine inv_same h rfl rfl ?_
-      intro c'
-      by_cases hc : c' = c
-      · subst hc; simp only [Sys.setPh, if_true]; trivial
-      · simp only [Sys.setPh, hc, if_false]; exact h.phases c'
-    next k v att idx inp hph =>
-      obtain ⟨hpri, hlog, _, hoth, hphc⟩ := mcommit_spec cfg s c k v att idx
-      refine inv_same h hpri hlog ?_
-      intro c'
-      by_cases hc : c' = c
-      · subst hc
-        rcases hphc with hi | ⟨a, i, hi⟩ <;> rw [hi] <;> trivial
-      · rw [hoth c' hc]; exact h.phases c'
-
-theorem inv_run {init : Key → Option α} {kind : Backend} (cfg : Cfg α) (evs : List (Ev α)) :
-    ∀ {s : Sys α}, Inv init kind s → Inv init kind (run cfg s evs) := by
-  induction evs with
-  | nil => intro s h; exact h
-  | cons ev evs ih => intro s h; exact ih (inv_next cfg h ev)
-
-/-- a quiescent system (nobody is inside a CAS call, empty log) over a well-formed store. -/
-structure Quiescent (s : Sys α) : Prop where
-  wf : StoreWF s.pri
-  idle : ∀ c, s.ph c = .idle
-  log : s.log = []
-
-theorem inv_init {s0 : Sys α} (h : Quiescent s0) : Inv (fun k => s0.pri.val k) s0.pri.kind s0 := by
-  refine ⟨rfl, h.wf, ?_, ?_, ?_⟩
-  · intro c; rw [h.idle c]; trivial
-  · intro k; rw [h.log]; exact rfl
-  · intro r hr; rw [h.log] at hr; cases hr
-
-theorem wf_empty (kind : Backend) : StoreWF (Store.empty kind : Store α) := by
-  intro k e he; simp [Store.empty] at he
-
-theorem quiescent_init (pri sec : Store α) (h : StoreWF pri) : Quiescent (Sys.init pri sec) :=
-  ⟨h, fun _ => rfl, rfl⟩
-
-/-- The chain property (newest-first form) for every backend. -/
-theorem chain_newest_first (cfg : Cfg α) (s0 : Sys α) (h0 : Quiescent s0) (evs : List (Ev α)) (k : Key) :
-    ChainR (s0.pri.val k) (writesOn k (run cfg s0 evs).log) ((run cfg s0 evs).pri.val k) :=
-  (inv_run cfg evs (inv_init h0)).chain k
-
-/-- No lost update, stated per write: every successful write was applied to exactly the value that was
-stored at the moment it was written. -/
-theorem wrote_input_current (cfg : Cfg α) (s0 : Sys α) (h0 : Quiescent s0) (evs : List (Ev α))
-    (r : Rec α) (hr : r ∈ (run cfg s0 evs).log) (hw : r.outcome = .wrote) : r.inp = r.before :=
-  (inv_run cfg evs (inv_init h0)).current r hr hw
-
-/-! ### chronological presentation of the chain -/
-
-/-- oldest-first chain over (input, value left) pairs: every successful call was applied to the value
-left by the previous one (the first to the initial value) and the final value is what the last left. -/
-def Chain (init : Option α) : List (Option α × Option α) → Option α → Prop
-  | [], fin => fin = init
-  | (i, a) :: rest, fin => i = init ∧ Chain a rest fin
-
-theorem chain_snoc (init : Option α) (l : List (Option α × Option α)) (i a fin : Option α) :
-    Chain init (l ++ [(i, a)]) fin ↔ (fin = a ∧ Chain init l i) := by
-  induction l generalizing init with
-  | nil => simp only [List.nil_append, Chain]; constructor <;> (intro ⟨x, y⟩; exact ⟨y, x⟩)
-  | cons p l ih =>
-    obtain ⟨i', a'⟩ := p
-    simp only [List.cons_append, Chain, ih]
-    constructor
-    · intro ⟨x, y, z⟩; exact ⟨y, x, z⟩
-    · intro ⟨y, x, z⟩; exact ⟨x, y, z⟩
-
-theorem chain_of_chainR (init : Option α) (l : List (Rec α)) (fin : Option α) (h : ChainR init l fin) :
-    Chain init (l.reverse.map (fun r => (r.inp, r.after))) fin := by
-  induction l generalizing fin with
-  | nil => exact h
-  | cons r l ih =>
-    obtain ⟨h1, h2⟩ := h
-    simp only [List.reverse_cons, List.map_append, List.map_cons, List.map_nil]
-    exact (chain_snoc _ _ _ _ _).2 ⟨h1, ih _ h2⟩
-
-/-- successful writes on `k` in chronological order as (input of `f`, value left). -/
-def successful (k : Key) (log : List (Rec α)) : List (Option α × Option α) :=
-  ((log.reverse).filter (fun r => decide (r.key = k) && decide (r.outcome = .wrote))).map (fun r => (r.inp, r.after))
-
-theorem successful_eq (k : Key) (log : List (Rec α)) :
-    successful k log = (writesOn k log).reverse.map (fun r => (r.inp, r.after)) := by
-  unfold successful writesOn
-  rw [List.filter_reverse]
-
-theorem chain_chrono (cfg : Cfg α) (s0 : Sys α) (h0 : Quiescent s0) (evs : List (Ev α)) (k : Key) :
-    Chain (s0.pri.val k) (successful k (run cfg s0 evs).log) ((run cfg s0 evs).pri.val k) := by
-  rw [successful_eq]
-  exact chain_of_chainR _ _ _ (chain_newest_first cfg s0 h0 evs k)
-
-/-! ### per-record facts: what a record says about the step that produced it -/
-
-structure RecFacts (kind : Backend) (merge : Option α → α → Option α) (r : Rec α) : Prop where
-  /-- a successful write ends the CAS loop with nil; what it leaves is `f`'s output (consul, etcd)
-  or the merge of `f`'s output into the value found (memberlist) -/
-  wrote : r.outcome = .wrote → r.done = some true ∧ ∃ out, r.out = some out ∧
-    (kind ≠ .ml → r.after = some out) ∧ (kind = .ml → r.after = merge r.before out ∧ r.after ≠ none)
-  /-- any other attempt leaves the stored value as it found it -/
-  other : r.outcome ≠ .wrote → r.after = r.before
-  /-- a declined call returns nil -/
-  declined : r.outcome = .declined → r.done = some true
-
-theorem RecFacts.error_not_wrote {kind : Backend} {merge : Option α → α → Option α} {r : Rec α}
-    (h : RecFacts kind merge r) (hd : r.done = some false) : r.outcome ≠ .wrote := by
-  intro hw; have := (h.wrote hw).1; rw [hd] at this; cases this
-
-/-- every step either leaves log and primary store alone, or appends exactly one record; the value of
-a key changes only in a step that logs a successful write on that key. -/
-theorem next_frame (cfg : Cfg α) (s : Sys α) (ev : Ev α) :
-    ((next cfg s ev).log = s.log ∧ (next cfg s ev).pri = s.pri) ∨
-    ∃ r, (next cfg s ev).log = r :: s.log ∧ RecFacts s.pri.kind cfg.merge r ∧
-      r.before = s.pri.val r.key ∧ r.after = (next cfg s ev).pri.val r.key ∧
-      (∀ k, k ≠ r.key → (next cfg s ev).pri.val k = s.pri.val k) ∧
-      (r.outcome ≠ .wrote → (next cfg s ev).pri = s.pri) := by
-  cases ev with
-  | begin c cl =>
-    left; simp only [next]; split <;> exact ⟨rfl, rfl⟩
-  | step c =>
-    simp only [next]
-    split
-    · left; exact ⟨rfl, rfl⟩
-    · left; exact ⟨rfl, rfl⟩
-    next cl cid att idx inp hph =>
-      right
-      obtain ⟨_, _, _, r, hlog, _, _, hkey, _, _, hbefore, hcase⟩ := commit_spec cfg s c cl cid att idx inp
-      refine ⟨r, hlog, ?_⟩
-      rcases hcase with ⟨hoc, ⟨out, retry, _, hout, hcw⟩, hafter, hdone, _⟩ | ⟨hoc, hpri, hab, hdecl, _⟩
-      · obtain ⟨_, v, t, c', hst, _, _, hv, hm⟩ := condWrite_wrote hcw
-        have hval : (commit cfg s c cl cid att idx inp).pri.val cl.key = some v := by
-          rw [hst]; simp [Store.val]
-        refine ⟨⟨fun _ => ⟨hdone, out, hout, ?_, ?_⟩, fun h => absurd hoc h, fun h => by rw [hoc] at h; cases h⟩,
-          by rw [hbefore, hkey], by rw [hafter, hkey], ?_, fun h => absurd hoc h⟩
-        · intro hk; rw [hafter, hval, hv hk]
-        · intro hk; rw [hafter, hval, hbefore, hm hk]; exact ⟨rfl, by simp⟩
-        · intro k hk; rw [hst]; simp [Store.val, hkey ▸ hk]
-      · refine ⟨⟨fun h => absurd h hoc, fun _ => hab, hdecl⟩, by rw [hbefore, hkey], by rw [hab, hbefore, hpri, hkey],
-          fun k _ => by rw [hpri], fun _ => hpri⟩
-    · left; exact ⟨rfl, rfl⟩
-    next k v att idx inp hph =>
-      left
-      obtain ⟨hpri, hlog, _⟩ := mcommit_spec cfg s c k v att idx
-      exact ⟨hlog, hpri⟩
-
-theorem next_kind (cfg : Cfg α) (s : Sys α) (ev : Ev α) : (next cfg s ev).pri.kind = s.pri.kind := by
-  rcases next_frame cfg s ev with ⟨_, h⟩ | ⟨r, _, _, _, _, _, hnw⟩
-  · rw [h]
-  · by_cases hw : r.outcome = .wrote
-    · -- a write keeps the kind
-      cases ev with
-      | begin c cl => simp only [next]; split <;> rfl
-      | step c =>
-        simp only [next]
-        split
-        · rfl
-        · rfl
-        next cl cid att idx inp hph =>
-          obtain ⟨_, _, _, r', _, _, _, _, _, _, _, hcase⟩ := commit_spec cfg s c cl cid att idx inp
-          rcases hcase with ⟨_, ⟨out, retry, _, _, hcw⟩, _⟩ | ⟨_, hpri, _⟩
-          · obtain ⟨_, v, t, c', hst, _⟩ := condWrite_wrote hcw
-            rw [hst]
-          · rw [hpri]
-        · rfl
-        next k v att idx inp hph => rw [(mcommit_spec cfg s c k v att idx).1]
-    · rw [hnw hw]
-
-theorem run_kind (cfg : Cfg α) (evs : List (Ev α)) : ∀ s : Sys α, (run cfg s evs).pri.kind = s.pri.kind := by
-  induction evs with
-  | nil => intro s; rfl
-  | cons ev evs ih => intro s; exact (ih _).trans (next_kind cfg s ev)
-
-/-- every record of a run carries the per-record facts. -/
-theorem run_recfacts (cfg : Cfg α) (evs : List (Ev α)) :
-    ∀ s : Sys α, (∀ r ∈ s.log, RecFacts s.pri.kind cfg.merge r) →
-      ∀ r ∈ (run cfg s evs).log, RecFacts s.pri.kind cfg.merge r := by
-  induction evs with
-  | nil => intro s h; exact h
-  | cons ev evs ih =>
-    intro s h
-    have hk := next_kind cfg s ev
-    have := ih (next cfg s ev) (by
-      rw [hk]
-      rcases next_frame cfg s ev with ⟨hl, _⟩ | ⟨r, hl, hf, _⟩
-      · rw [hl]; exact h
-      · rw [hl]; intro r' hr'
-        rcases List.mem_cons.1 hr' with rfl | hr'
-        · exact hf
-        · exact h r' hr')
-    rw [hk] at this; exact this
-
+        · intro r' hr'
+          rw [hlog] at hr'
+          rcases List.mem_cons.1 hr' with rfl | hr'
+          · refine ⟨⟨fun hh => absurd hh hoc, fun _ => by rw [hafter, hbefore, hsame], hdecl, fun hd => Or.inr (hsucc hd)⟩, hstore⟩
+          · exact h.facts r' hr'
+    next t rest k v att idx hph =>
+      refine inv_same h rfl rfl rfl ?_ ?_
+      · intro c'
+        by_cases hc : c' = c
+        · subst hc; simp only [Sys.setPh, if_true]
+          have := h.phP c'; rw [hph] at this; exact this
+        · simp only [Sys.setPh, hc, if_false]; exact h.phP c'
+      · intro c'
+        by_cases hc : c' = c
+        · subst hc; simp only [Sys.setPh, if_true]; trivial
+        · simp only [Sys.setPh, hc, if_false]; exact h.phases c'
+    next t rest k v att idx inp hph =>
+      obtain ⟨hlog, _, _, hprim, hoth, hsto, hphc⟩ := mcommit_spec cfg s c t rest k v att idx _ rfl
+      have htp : t ≠ p ∧ p ∉ rest := by have := h.phP c; rw [hph] at this; exact this
+      refine inv_same h hprim (hsto p (fun hh => htp.1 hh.symm)) hlog ?_ ?_
+      · intro c'
+        by_cases hc : c' = c
+        · subst hc
+          rcases hphc with hi | ⟨a, i, hi⟩ <;> rw [hi]
+          · exact mirrorNext_phaseP cfg p rest k v htp.2
+          · exact htp
+        · rw [hoth c' hc]; exact h.phP c'
+      · intro c'
+        by_cases hc : c' = c
+        · subst hc
+          rcases hphc with hi | ⟨a, i, hi⟩
+          · rcases mirrorNext_not_inflight cfg rest k v with hj | ⟨t', r', hj⟩ <;> rw [hi, hj] <;> trivial
+          · rw [hi]; trivial
+        · rw [hoth c' hc]; exact h.phases c'
 /-! ### calls: a call that reports failure, or declines, never wrote -/
 
 /-- the identifier of the CAS call a caller is executing (primary loop). -/
 def inflight : Phase α → Option Nat
-  | .reading _ cid _ _ => some cid
-  | .holding _ cid _ _ _ => some cid
+  | .reading _ _ cid _ _ => some cid
+  | .holding _ _ cid _ _ _ => some cid
   | _ => none
 
 structure CidInv (s : Sys α) : Prop where
@@ -665,11 +711,16 @@ theorem cid_same {s s' : Sys α} (h : CidInv s) (hlog : s'.log = s.log) (hn : s'
 
 theorem cid_next (cfg : Cfg α) {s : Sys α} (h : CidInv s) (ev : Ev α) : CidInv (next cfg s ev) := by
   cases ev with
+  | switch ix =>
+    simp only [next]
+    split
+    · exact cid_same h rfl rfl (fun _ _ hc => hc)
+    · exact h
   | begin c cl =>
     simp only [next]
     split
     next hidle =>
-      have hph : ∀ c' cid, inflight ((s.setPh c (.reading cl s.nextCid 0 0)).ph c') = some cid →
+      have hph : ∀ c' cid, inflight ((s.setPh c (.reading s.primary cl s.nextCid 0 0)).ph c') = some cid →
           (c' = c ∧ cid = s.nextCid) ∨ (c' ≠ c ∧ inflight (s.ph c') = some cid) := by
         intro c' cid hc
         by_cases hcc : c' = c
@@ -696,14 +747,14 @@ theorem cid_next (cfg : Cfg α) {s : Sys α} (h : CidInv s) (ev : Ev α) : CidIn
     simp only [next]
     split
     · exact h
-    next cl cid att idx hphc =>
+    next q cl cid att idx hphc =>
       refine cid_same h rfl rfl ?_
       intro c' cid' hc
       by_cases hcc : c' = c
       · subst hcc; rw [setPh_ph_self] at hc; rw [hphc]; exact hc
       · rw [setPh_ph_other _ _ _ _ hcc] at hc; exact hc
-    next cl cid att idx inp hphc =>
-      obtain ⟨_, hn, hoth, r, hlog, _, hcid, _, _, _, _, hcase⟩ := commit_spec cfg s c cl cid att idx inp
+    next q cl cid att idx inp hphc =>
+      obtain ⟨hn, _, _, hoth, _, r, hlog, _, hcid, _, _, _, _, _, _, hcase⟩ := commit_spec cfg s c q cl cid att idx inp _ rfl
       have hin : inflight (s.ph c) = some cid := by rw [hphc]; rfl
       have hlt := h.phLt c cid hin
       -- other callers keep their call; they run a different call than `c`
@@ -712,11 +763,11 @@ theorem cid_next (cfg : Cfg α) {s : Sys α} (h : CidInv s) (ev : Ev α) : CidIn
       -- records of calls that ended belong to no running call
       have hended : ∀ rr ∈ s.log, rr.done ≠ none → rr.cid ≠ cid := by
         intro rr hrr hd heq; exact hd (h.openClean c cid hin rr hrr heq).2
-      rcases hcase with ⟨hoc, _, _, hdone, hphc'⟩ | ⟨hoc, _, _, hdecl, hphc'⟩
+      rcases hcase with ⟨hoc, ⟨out, _, _, _, _, hphc'⟩, hdone⟩ | ⟨hoc, _, hdecl, _, hphc'⟩
       · -- wrote: the call leaves the primary loop
-        have hnone : inflight ((commit cfg s c cl cid att idx inp).ph c) = none := by
-          rcases hphc' with hi | ⟨v, hi⟩ <;> rw [hi] <;> rfl
-        have hph : ∀ c' cid', inflight ((commit cfg s c cl cid att idx inp).ph c') = some cid' →
+        have hnone : inflight ((commit cfg s c q cl cid att idx inp).ph c) = none := by
+          rcases mirrorPhase_cases cfg s q cl out with hi | ⟨t', rest, hi⟩ <;> rw [hphc', hi] <;> rfl
+        have hph : ∀ c' cid', inflight ((commit cfg s c q cl cid att idx inp).ph c') = some cid' →
             c' ≠ c ∧ inflight (s.ph c') = some cid' := by
           intro c' cid' hc
           by_cases hcc : c' = c
@@ -753,7 +804,7 @@ theorem cid_next (cfg : Cfg α) {s : Sys α} (h : CidInv s) (ev : Ev α) : CidIn
             · rw [hrr', hcid] at hrc; exact absurd hrc.symm hne
             · exact h.target rr hrr hfail r' hr' hrc
       · -- nothing written
-        have hph : ∀ c' cid', inflight ((commit cfg s c cl cid att idx inp).ph c') = some cid' →
+        have hph : ∀ c' cid', inflight ((commit cfg s c q cl cid att idx inp).ph c') = some cid' →
             inflight (s.ph c') = some cid' ∧ (c' = c → r.done = none) := by
           intro c' cid' hc
           by_cases hcc : c' = c
@@ -794,25 +845,56 @@ theorem cid_next (cfg : Cfg α) {s : Sys α} (h : CidInv s) (ev : Ev α) : CidIn
             rcases List.mem_cons.1 hr' with hrr' | hr'
             · rw [hrr', hcid] at hrc; exact absurd hrc.symm hne
             · exact h.target rr hrr hfail r' hr' hrc
-    next k v att idx hphc =>
+    next t rest k v att idx hphc =>
       refine cid_same h rfl rfl ?_
       intro c' cid' hc
       by_cases hcc : c' = c
       · subst hcc; rw [setPh_ph_self] at hc; cases hc
       · rw [setPh_ph_other _ _ _ _ hcc] at hc; exact hc
-    next k v att idx inp hphc =>
-      obtain ⟨_, hlog, hn, hoth, hphc'⟩ := mcommit_spec cfg s c k v att idx
+    next t rest k v att idx inp hphc =>
+      obtain ⟨hlog, hn, _, _, hoth, _, hphc'⟩ := mcommit_spec cfg s c t rest k v att idx _ rfl
       refine cid_same h hlog hn ?_
       intro c' cid' hc
       by_cases hcc : c' = c
       · subst hcc
-        rcases hphc' with hi | ⟨a, i, hi⟩ <;> rw [hi] at hc <;> cases hc
+        rcases hphc' with hi | ⟨a, i, hi⟩
+        · rcases mirrorNext_not_inflight cfg rest k v with hj | ⟨t', r', hj⟩ <;> rw [hi, hj] at hc <;> cases hc
+        · rw [hi] at hc; cases hc
       · rw [hoth c' hcc] at hc; exact hc
 
 theorem cid_run (cfg : Cfg α) (evs : List (Ev α)) : ∀ {s : Sys α}, CidInv s → CidInv (run cfg s evs) := by
   induction evs with
   | nil => intro s h; exact h
   | cons ev evs ih => intro s h; exact ih (cid_next cfg h ev)
+
+
+/-! ### runs -/
+
+def NoSwitches (evs : List (Ev α)) : Prop := ∀ ev ∈ evs, NoSwitch ev
+
+theorem inv_run {init : Key → Option α} {kind : Backend} {p : Nat} (cfg : Cfg α)
+    (hl : kind = .ml → Lawful cfg.merge) (evs : List (Ev α)) :
+    ∀ {s : Sys α}, Inv cfg.merge init kind p s → NoSwitches evs → Inv cfg.merge init kind p (run cfg s evs) := by
+  induction evs with
+  | nil => intro s h _; exact h
+  | cons ev evs ih =>
+    intro s h hns
+    exact ih (inv_next cfg hl h ev (hns ev (List.mem_cons_self ..))) (fun e he => hns e (List.mem_cons_of_mem _ he))
+
+/-- a quiescent system (nobody is inside a CAS call, empty log) whose primary store is well-formed. -/
+structure Quiescent (s : Sys α) : Prop where
+  wf : StoreWF (s.stores s.primary)
+  idle : ∀ c, s.ph c = .idle
+  log : s.log = []
+
+theorem inv_init {merge : Option α → α → α × Bool} {s0 : Sys α} (h : Quiescent s0) :
+    Inv merge (fun k => s0.pri.val k) s0.pri.kind s0.primary s0 := by
+  refine ⟨rfl, ?_, rfl, h.wf, ?_, ?_, ?_, ?_⟩
+  · intro c; rw [h.idle c]; trivial
+  · intro c; rw [h.idle c]; trivial
+  · intro k; rw [h.log]; exact rfl
+  · intro r hr; rw [h.log] at hr; cases hr
+  · intro r hr; rw [h.log] at hr; cases hr
 
 theorem cid_init {s0 : Sys α} (h : Quiescent s0) : CidInv s0 := by
   refine ⟨?_, ?_, ?_, ?_, ?_, ?_⟩
@@ -823,138 +905,372 @@ theorem cid_init {s0 : Sys α} (h : Quiescent s0) : CidInv s0 := by
   · rw [h.log]; intro r hr; cases hr
   · rw [h.log]; intro r hr; cases hr
 
-/-! ### wrappers -/
+theorem wf_empty (kind : Backend) : StoreWF (Store.empty kind : Store α) := by
+  intro k e he; simp [Store.empty] at he
 
-theorem prefixKey_inj (p k1 k2 : Key) (h : prefixKey p k1 = prefixKey p k2) : k1 = k2 :=
-  List.append_cancel_left h
+theorem quiescent_init2 (pri sec : Store α) (multi : Bool) (h : StoreWF pri) : Quiescent (Sys.init2 pri sec multi) :=
+  ⟨by simpa [Sys.init2] using h, fun _ => rfl, rfl⟩
 
-def inMirror : Phase α → Prop
-  | .mreading .. => True
-  | .mholding .. => True
-  | _ => False
+/-- hypotheses shared by the run-level theorems: a quiescent start, the Mergeable contract when the
+primary is a memberlist store, and no runtime switch of the primary during the run. -/
+structure RunOK (cfg : Cfg α) (s0 : Sys α) (evs : List (Ev α)) : Prop where
+  quiet : Quiescent s0
+  lawful : s0.pri.kind = .ml → Lawful cfg.merge
+  noSwitch : NoSwitches evs
 
-/-- a step of the mirror loop touches neither the primary store, nor the log, nor other callers. -/
+theorem run_inv (cfg : Cfg α) (s0 : Sys α) (evs : List (Ev α)) (h : RunOK cfg s0 evs) :
+    Inv cfg.merge (fun k => s0.pri.val k) s0.pri.kind s0.primary (run cfg s0 evs) :=
+  inv_run cfg h.lawful evs (inv_init h.quiet) h.noSwitch
+
+/-! ### chronological presentation of the chain -/
+
+/-- oldest-first chain over (input, value left) pairs: every successful call was applied to the value
+left by the previous one (the first to the initial value) and the final value is what the last left. -/
+def Chain (init : Option α) : List (Option α × Option α) → Option α → Prop
+  | [], fin => fin = init
+  | (i, a) :: rest, fin => i = init ∧ Chain a rest fin
+
+theorem chain_snoc (init : Option α) (l : List (Option α × Option α)) (i a fin : Option α) :
+    Chain init (l ++ [(i, a)]) fin ↔ (fin = a ∧ Chain init l i) := by
+  induction l generalizing init with
+  | nil => simp only [List.nil_append, Chain]; constructor <;> (intro ⟨x, y⟩; exact ⟨y, x⟩)
+  | cons p l ih =>
+    obtain ⟨i', a'⟩ := p
+    simp only [List.cons_append, Chain, ih]
+    constructor
+    · intro ⟨x, y, z⟩; exact ⟨y, x, z⟩
+    · intro ⟨y, x, z⟩; exact ⟨x, y, z⟩
+
+theorem chain_of_chainR (init : Option α) (l : List (Rec α)) (fin : Option α) (h : ChainR init l fin) :
+    Chain init (l.reverse.map (fun r => (r.inp, r.after))) fin := by
+  induction l generalizing fin with
+  | nil => exact h
+  | cons r l ih =>
+    obtain ⟨h1, h2⟩ := h
+    simp only [List.reverse_cons, List.map_append, List.map_cons, List.map_nil]
+    exact (chain_snoc _ _ _ _ _).2 ⟨h1, ih _ h2⟩
+
+/-- successful writes on `k` in chronological order as (input of `f`, value left). -/
+def successful (k : Key) (log : List (Rec α)) : List (Option α × Option α) :=
+  ((log.reverse).filter (fun r => decide (r.key = k) && decide (r.outcome = .wrote))).map (fun r => (r.inp, r.after))
+
+/-- the same, as (input of `f`, output of `f`). -/
+def successfulOut (k : Key) (log : List (Rec α)) : List (Option α × Option α) :=
+  ((log.reverse).filter (fun r => decide (r.key = k) && decide (r.outcome = .wrote))).map (fun r => (r.inp, r.out))
+
+theorem successful_eq (k : Key) (log : List (Rec α)) :
+    successful k log = (writesOn k log).reverse.map (fun r => (r.inp, r.after)) := by
+  unfold successful writesOn
+  rw [List.filter_reverse]
+
+theorem chain_chrono (cfg : Cfg α) (s0 : Sys α) (evs : List (Ev α)) (h : RunOK cfg s0 evs) (k : Key) :
+    Chain (s0.pri.val k) (successful k (run cfg s0 evs).log) (((run cfg s0 evs).stores s0.primary).val k) := by
+  rw [successful_eq]
+  exact chain_of_chainR _ _ _ ((run_inv cfg s0 evs h).chain k)
+
+/-- on consul and etcd the value left is `f`'s output, so the chain is a chain of outputs. -/
+theorem successfulOut_eq (cfg : Cfg α) (s0 : Sys α) (evs : List (Ev α)) (h : RunOK cfg s0 evs)
+    (hk : s0.pri.kind ≠ .ml) (k : Key) :
+    successfulOut k (run cfg s0 evs).log = successful k (run cfg s0 evs).log := by
+  unfold successfulOut successful
+  apply List.map_congr_left
+  intro r hr
+  have hr' := (List.mem_filter.1 hr)
+  have hmem : r ∈ (run cfg s0 evs).log := List.mem_reverse.1 hr'.1
+  have hw : r.outcome = .wrote := by
+    have := hr'.2; simp only [Bool.and_eq_true, decide_eq_true_eq] at this; exact this.2
+  obtain ⟨_, out, ho, ha, _⟩ := ((run_inv cfg s0 evs h).facts r hmem).1.wrote hw
+  rw [ho, ha hk]
+
+/-! ### single steps -/
+
+theorem wrote_applies_f (cfg : Cfg α) (s : Sys α) (c p : Nat) (cl : Call α) (cid att idx : Nat) (inp : Option α)
+    (hp : s.ph c = .holding p cl cid att idx inp) :
+    ∃ r, (next cfg s (.step c)).log = r :: s.log ∧ r.inp = inp ∧ r.key = cl.key ∧ r.store = p ∧
+      (r.outcome = .wrote → ∃ out retry, cl.f att inp = .write out retry ∧ r.out = some out) := by
+  have : next cfg s (.step c) = commit cfg s c p cl cid att idx inp := by simp only [next, hp]
+  rw [this]
+  obtain ⟨_, _, _, _, _, r, hlog, _, _, hstore, hkey, _, hinp, _, _, hcase⟩ := commit_spec cfg s c p cl cid att idx inp _ rfl
+  refine ⟨r, hlog, hinp, hkey, hstore, fun hw => ?_⟩
+  rcases hcase with ⟨_, ⟨out, retry, hf, ho, _⟩, _⟩ | ⟨hoc, _⟩
+  · exact ⟨out, retry, hf, ho⟩
+  · exact absurd hw hoc
+
+theorem wrote_ends_call (cfg : Cfg α) (s : Sys α) (c p : Nat) (cl : Call α) (cid att idx : Nat) (inp : Option α)
+    (hp : s.ph c = .holding p cl cid att idx inp) (r : Rec α)
+    (hl : (next cfg s (.step c)).log = r :: s.log) (hw : r.outcome = .wrote) :
+    r.done = some true ∧ inflight ((next cfg s (.step c)).ph c) = none := by
+  have : next cfg s (.step c) = commit cfg s c p cl cid att idx inp := by simp only [next, hp]
+  rw [this] at hl ⊢
+  obtain ⟨_, _, _, _, _, r0, hlog, _, _, _, _, _, _, _, _, hcase⟩ := commit_spec cfg s c p cl cid att idx inp _ rfl
+  have : r0 = r := by rw [hlog] at hl; exact (List.cons.inj hl).1
+  subst this
+  rcases hcase with ⟨_, ⟨out, _, _, _, _, hph⟩, hd⟩ | ⟨hoc, _⟩
+  · refine ⟨hd, ?_⟩
+    rcases mirrorPhase_cases cfg s p cl out with hi | ⟨t, rest, hi⟩ <;> rw [hph, hi] <;> rfl
+  · exact absurd hw hoc
+
+/-- after a successful write through a mirroring `MultiClient` the caller starts the loop of
+`writeToSecondary` over `mirrorTargets clients p`, i.e. over every client except its primary. -/
+theorem mirror_loop_targets (cfg : Cfg α) (s : Sys α) (c p : Nat) (cl : Call α) (cid att idx : Nat) (inp : Option α)
+    (hp : s.ph c = .holding p cl cid att idx inp) (hm : cl.mirror = true) (hb : 0 < cfg.sbudget) (r : Rec α)
+    (hl : (next cfg s (.step c)).log = r :: s.log) (hw : r.outcome = .wrote) :
+    ∃ out, r.out = some out ∧
+      (next cfg s (.step c)).ph c =
+        (match mirrorTargets s.clients p with
+         | [] => .idle
+         | t :: rest => .mreading t rest cl.key out 0 0) := by
+  have : next cfg s (.step c) = commit cfg s c p cl cid att idx inp := by simp only [next, hp]
+  rw [this] at hl ⊢
+  obtain ⟨_, _, _, _, _, r0, hlog, _, _, _, _, _, _, _, _, hcase⟩ := commit_spec cfg s c p cl cid att idx inp _ rfl
+  have : r0 = r := by rw [hlog] at hl; exact (List.cons.inj hl).1
+  subst this
+  rcases hcase with ⟨_, ⟨out, _, _, ho, _, hph⟩, _⟩ | ⟨hoc, _⟩
+  · refine ⟨out, ho, ?_⟩
+    rw [hph]; unfold mirrorPhase mirrorNext; rw [if_pos hm]
+    cases mirrorTargets s.clients p with
+    | nil => rfl
+    | cons t rest => simp only [if_pos hb]
+  · exact absurd hw hoc
+
+/-- The value of a key in store `p` changes only in a step that logs a successful write on that key
+by a call whose primary is `p` — provided no mirror loop is aimed at `p` (`PhaseP`). -/
+theorem non_write_steps_noop (cfg : Cfg α) (s : Sys α) (p : Nat)
+    (hl : (s.stores p).kind = .ml → Lawful cfg.merge) (hP : ∀ c, PhaseP p (s.ph c)) (ev : Ev α) (k : Key)
+    (h : ((next cfg s ev).stores p).val k ≠ (s.stores p).val k) :
+    ∃ r, (next cfg s ev).log = r :: s.log ∧ r.outcome = .wrote ∧ r.key = k ∧ r.store = p := by
+  cases ev with
+  | begin c cl => exfalso; apply h; simp only [next]; split <;> rfl
+  | switch ix => exfalso; apply h; simp only [next]; split <;> rfl
+  | step c =>
+    simp only [next] at h ⊢
+    split at h
+    · exact absurd rfl h
+    · exact absurd rfl h
+    next q cl cid att idx inp hph =>
+      have hq : q = p := by have := hP c; rw [hph] at this; exact this
+      subst hq
+      obtain ⟨_, _, _, _, _, r, hlog, _, _, hstore, hkey, _, _, _, _, hcase⟩ := commit_spec cfg s c q cl cid att idx inp _ rfl
+      rcases hcase with ⟨hoc, ⟨out, retry, _, _, hcw, _⟩, _⟩ | ⟨hoc, hsto, _⟩
+      · refine ⟨r, hlog, hoc, ?_, hstore⟩
+        apply Classical.byContradiction
+        intro hk
+        apply h
+        have := (condWrite_frame hcw).2 k (fun hh => hk (hkey.trans hh.symm))
+        simp only [Store.val, this]
+      · exact absurd (by rw [nonwrote_store hl hsto]) h
+    · exact absurd rfl h
+    next t rest k' v att idx inp hph =>
+      have htp : t ≠ p ∧ p ∉ rest := by have := hP c; rw [hph] at this; exact this
+      obtain ⟨_, _, _, _, _, hsto, _⟩ := mcommit_spec cfg s c t rest k' v att idx _ rfl
+      exact absurd (by rw [hsto p (fun hh => htp.1 hh.symm)]) h
+
+/-- a step of a mirror loop aimed at store `t` changes at most store `t`; the log of primary attempts
+and the other callers are untouched. -/
 theorem mirror_step_frame (cfg : Cfg α) (s : Sys α) (c : Nat) (h : inMirror (s.ph c)) :
-    (next cfg s (.step c)).pri = s.pri ∧ (next cfg s (.step c)).log = s.log ∧
-    ∀ c', c' ≠ c → (next cfg s (.step c)).ph c' = s.ph c' := by
+    (next cfg s (.step c)).log = s.log ∧ (∀ c', c' ≠ c → (next cfg s (.step c)).ph c' = s.ph c') ∧
+    ∀ i, (∀ t rest k v att idx, s.ph c ≠ .mreading t rest k v att idx) →
+      (∀ rest k v att idx inp, s.ph c ≠ .mholding i rest k v att idx inp) →
+      (next cfg s (.step c)).stores i = s.stores i := by
   simp only [next]
   split
   next hp => rw [hp] at h; cases h
   next hp => rw [hp] at h; cases h
   next hp => rw [hp] at h; cases h
-  · exact ⟨rfl, rfl, fun c' hc => setPh_ph_other _ _ _ _ hc⟩
-  next k v att idx inp hp =>
-    obtain ⟨h1, h2, _, h3, _⟩ := mcommit_spec cfg s c k v att idx
-    exact ⟨h1, h2, h3⟩
+  next t rest k v att idx hp =>
+    exact ⟨rfl, fun c' hc => setPh_ph_other _ _ _ _ hc, fun i h1 _ => absurd hp (h1 t rest k v att idx)⟩
+  next t rest k v att idx inp hp =>
+    obtain ⟨h1, _, _, _, h3, h4, _⟩ := mcommit_spec cfg s c t rest k v att idx _ rfl
+    refine ⟨h1, h3, fun i _ h2 => h4 i ?_⟩
+    intro hi; subst hi; exact h2 rest k v att idx inp hp
 
-/-- every event of the primary loop leaves the secondary store alone. -/
-theorem primary_step_sec (cfg : Cfg α) (s : Sys α) (ev : Ev α)
-    (h : ∀ c, ev = .step c → ¬ inMirror (s.ph c)) : (next cfg s ev).sec = s.sec := by
+/-- every event of a primary loop on store `p` (and `begin`, `switch`) leaves the other stores alone. -/
+theorem primary_step_frame (cfg : Cfg α) (s : Sys α) (ev : Ev α)
+    (h : ∀ c, ev = .step c → ¬ inMirror (s.ph c)) (i : Nat)
+    (hi : ∀ c q cl cid att idx inp, ev = .step c → s.ph c = .holding q cl cid att idx inp → q ≠ i) :
+    (next cfg s ev).stores i = s.stores i := by
   cases ev with
   | begin c cl => simp only [next]; split <;> rfl
+  | switch ix => simp only [next]; split <;> rfl
   | step c =>
     have h := h c rfl
     simp only [next]
     split
     · rfl
     · rfl
-    next cl cid att idx inp hp => exact (commit_spec cfg s c cl cid att idx inp).1
+    next q cl cid att idx inp hp =>
+      exact (commit_spec cfg s c q cl cid att idx inp _ rfl).2.2.2.2.1 i (fun hh => hi c q cl cid att idx inp rfl hp hh.symm)
     next hp => rw [hp] at h; exact absurd trivial h
     next hp => rw [hp] at h; exact absurd trivial h
 
-/-- An undisturbed mirror write (Get, then conditional write) on a consul or etcd secondary stores
-exactly the value the primary CAS wrote. -/
-theorem mirror_copies_value (cfg : Cfg α) (s : Sys α) (c : Nat) (k : Key) (v : α)
-    (hp : s.ph c = .mreading k v 0 0) (hk : s.sec.kind ≠ .ml) :
-    (next cfg (next cfg s (.step c)) (.step c)).sec.val k = some v := by
-  have h1 : next cfg s (.step c) = s.setPh c (.mholding k v 0 (readIdx s.sec k 0) (s.sec.val k)) := by
+/-- An undisturbed mirror write (Get, then conditional write, nothing in between) on a consul or etcd
+store leaves exactly the value the primary CAS wrote. -/
+theorem mirror_copies_undisturbed (cfg : Cfg α) (s : Sys α) (c t : Nat) (rest : List Nat) (k : Key) (v : α)
+    (hp : s.ph c = .mreading t rest k v 0 0) (hk : (s.stores t).kind ≠ .ml) :
+    ((next cfg (next cfg s (.step c)) (.step c)).stores t).val k = some v := by
+  have h1 : next cfg s (.step c) =
+      s.setPh c (.mholding t rest k v 0 (readIdx (s.stores t) k 0) ((s.stores t).val k)) := by
     simp only [next, hp]
   rw [h1]
-  have h2 : (s.setPh c (.mholding k v 0 (readIdx s.sec k 0) (s.sec.val k))).ph c =
-      .mholding k v 0 (readIdx s.sec k 0) (s.sec.val k) := setPh_ph_self _ _ _
+  have h2 : (s.setPh c (.mholding t rest k v 0 (readIdx (s.stores t) k 0) ((s.stores t).val k))).ph c =
+      .mholding t rest k v 0 (readIdx (s.stores t) k 0) ((s.stores t).val k) := setPh_ph_self _ _ _
   simp only [next, h2, mcommit]
-  have hsec : (s.setPh c (.mholding k v 0 (readIdx s.sec k 0) (s.sec.val k))).sec = s.sec := rfl
+  have hsec : (s.setPh c (.mholding t rest k v 0 (readIdx (s.stores t) k 0) ((s.stores t).val k))).stores t = s.stores t := rfl
   rw [hsec]
-  have hw : ∃ st, condWrite cfg.merge s.sec k (readIdx s.sec k 0) v = (st, .wrote) ∧ st.val k = some v := by
+  have hw : ∃ st, condWrite cfg.merge (s.stores t) k (readIdx (s.stores t) k 0) v = (st, .wrote) ∧ st.val k = some v := by
     unfold condWrite readIdx
-    cases hkind : s.sec.kind with
+    cases hkind : (s.stores t).kind with
     | ml => exact absurd hkind hk
     | consul =>
-      cases he : s.sec.ent k with
+      cases he : (s.stores t).ent k with
       | none => exact ⟨_, rfl, by simp [Store.val, Store.set]⟩
       | some e => simp only [ne_eq, not_true_eq_false, if_false]; exact ⟨_, rfl, by simp [Store.val, Store.set]⟩
     | etcd =>
-      cases he : s.sec.ent k with
+      cases he : (s.stores t).ent k with
       | none => simp only [ver_of_none he, ne_eq, not_true_eq_false, if_false]; exact ⟨_, rfl, by simp [Store.val, Store.set]⟩
       | some e => simp only [ver_of_some he, ne_eq, not_true_eq_false, if_false]; exact ⟨_, rfl, by simp [Store.val, Store.set]⟩
   obtain ⟨st, hcw, hv⟩ := hw
-  rw [hcw]; exact hv
+  rw [hcw]
+  simp only [Sys.setPh, Sys.setStore, if_true]
+  exact hv
 
-/-! ### statements of record proved here, restated in `Props/C07.lean` -/
+/-! ### run-level statements about records -/
 
-theorem wrote_leaves_output (cfg : Cfg α) (s0 : Sys α) (h0 : Quiescent s0) (hk : s0.pri.kind ≠ .ml)
-    (evs : List (Ev α)) (r : Rec α) (hr : r ∈ (run cfg s0 evs).log) (hw : r.outcome = .wrote) :
-    r.done = some true ∧ ∃ out, r.out = some out ∧ r.after = some out := by
-  have hf := run_recfacts cfg evs s0 (by rw [h0.log]; intro r hr; cases hr) r hr
-  obtain ⟨hd, out, ho, ha, _⟩ := hf.wrote hw
-  exact ⟨hd, out, ho, ha hk⟩
+theorem run_facts (cfg : Cfg α) (s0 : Sys α) (evs : List (Ev α)) (h : RunOK cfg s0 evs)
+    (r : Rec α) (hr : r ∈ (run cfg s0 evs).log) : RecFacts s0.pri.kind cfg.merge r ∧ r.store = s0.primary :=
+  (run_inv cfg s0 evs h).facts r hr
 
-theorem wrote_applies_f (cfg : Cfg α) (s : Sys α) (c : Nat) (cl : Call α) (cid att idx : Nat) (inp : Option α)
-    (hp : s.ph c = .holding cl cid att idx inp) :
-    ∃ r, (next cfg s (.step c)).log = r :: s.log ∧ r.inp = inp ∧ r.key = cl.key ∧
-      (r.outcome = .wrote → ∃ out retry, cl.f att inp = .write out retry ∧ r.out = some out) := by
-  have : next cfg s (.step c) = commit cfg s c cl cid att idx inp := by simp only [next, hp]
-  rw [this]
-  obtain ⟨_, _, _, r, hlog, _, _, hkey, _, hinp, _, hcase⟩ := commit_spec cfg s c cl cid att idx inp
-  refine ⟨r, hlog, hinp, hkey, fun hw => ?_⟩
-  rcases hcase with ⟨_, ⟨out, retry, hf, ho, _⟩, _⟩ | ⟨hoc, _⟩
-  · exact ⟨out, retry, hf, ho⟩
-  · exact absurd hw hoc
+theorem wrote_input_current (cfg : Cfg α) (s0 : Sys α) (evs : List (Ev α)) (h : RunOK cfg s0 evs)
+    (r : Rec α) (hr : r ∈ (run cfg s0 evs).log) (hw : r.outcome = .wrote) : r.inp = r.before :=
+  (run_inv cfg s0 evs h).current r hr hw
 
-theorem non_write_steps_noop (cfg : Cfg α) (s : Sys α) (ev : Ev α) (k : Key)
-    (h : (next cfg s ev).pri.val k ≠ s.pri.val k) :
-    ∃ r, (next cfg s ev).log = r :: s.log ∧ r.outcome = .wrote ∧ r.key = k := by
-  rcases next_frame cfg s ev with ⟨_, hp⟩ | ⟨r, hl, _, _, _, hoth, hnw⟩
-  · rw [hp] at h; exact absurd rfl h
-  · refine ⟨r, hl, ?_, ?_⟩
-    · apply Classical.byContradiction; intro hw; rw [hnw hw] at h; exact h rfl
-    · apply Classical.byContradiction; intro hk; exact h (hoth k (fun hh => hk hh.symm))
-
-theorem failed_or_declined_noop (cfg : Cfg α) (s0 : Sys α) (h0 : Quiescent s0) (evs : List (Ev α))
+theorem failed_or_declined_noop (cfg : Cfg α) (s0 : Sys α) (evs : List (Ev α)) (h : RunOK cfg s0 evs)
     (r : Rec α) (hr : r ∈ (run cfg s0 evs).log) (hfail : r.done = some false ∨ r.outcome = .declined)
     (r' : Rec α) (hr' : r' ∈ (run cfg s0 evs).log) (hsame : r'.cid = r.cid) :
     r'.outcome ≠ .wrote ∧ r'.after = r'.before := by
-  have hne := (cid_run cfg evs (cid_init h0)).target r hr hfail r' hr' hsame
-  have hf := run_recfacts cfg evs s0 (by rw [h0.log]; intro r hr; cases hr) r' hr'
-  exact ⟨hne, hf.other hne⟩
+  have hne := (cid_run cfg evs (cid_init h.quiet)).target r hr hfail r' hr' hsame
+  exact ⟨hne, (run_facts cfg s0 evs h r' hr').1.other hne⟩
 
-theorem wrote_ends_call (cfg : Cfg α) (s : Sys α) (c : Nat) (cl : Call α) (cid att idx : Nat) (inp : Option α)
-    (hp : s.ph c = .holding cl cid att idx inp) (r : Rec α)
-    (hl : (next cfg s (.step c)).log = r :: s.log) (hw : r.outcome = .wrote) :
-    r.done = some true ∧ inflight ((next cfg s (.step c)).ph c) = none := by
-  have : next cfg s (.step c) = commit cfg s c cl cid att idx inp := by simp only [next, hp]
-  rw [this] at hl ⊢
-  obtain ⟨_, _, _, r0, hlog, _, _, _, _, _, _, hcase⟩ := commit_spec cfg s c cl cid att idx inp
-  have : r0 = r := by rw [hlog] at hl; exact (List.cons.inj hl).1
-  subst this
-  rcases hcase with ⟨_, _, _, hd, hph⟩ | ⟨hoc, _⟩
-  · refine ⟨hd, ?_⟩
-    rcases hph with hi | ⟨v, hi⟩ <;> rw [hi] <;> rfl
-  · exact absurd hw hoc
+/-- In every reachable state a caller that read the key as absent holds token 0 and input `none`
+as long as the key is still absent: the token variable kept across attempts (consul, etcd) and
+consul's "an absent key accepts any index" never matter in a run (no Delete). -/
+theorem absent_read_holds_zero_token (cfg : Cfg α) (s0 : Sys α) (evs : List (Ev α)) (h : RunOK cfg s0 evs)
+    (c q : Nat) (cl : Call α) (cid att idx : Nat) (inp : Option α)
+    (hp : (run cfg s0 evs).ph c = .holding q cl cid att idx inp)
+    (habs : ((run cfg s0 evs).stores s0.primary).ent cl.key = none) : q = s0.primary ∧ inp = none ∧ idx = 0 := by
+  have hi := run_inv cfg s0 evs h
+  have h1 := hi.phP c; rw [hp] at h1
+  have h2 := hi.phases c; rw [hp] at h2
+  exact ⟨h1, h2.1 habs⟩
 
-theorem ml_wrote_leaves_merge (cfg : Cfg α) (s0 : Sys α) (h0 : Quiescent s0) (hk : s0.pri.kind = .ml)
-    (evs : List (Ev α)) (r : Rec α) (hr : r ∈ (run cfg s0 evs).log) (hw : r.outcome = .wrote) :
-    r.done = some true ∧ ∃ out, r.out = some out ∧ r.after = cfg.merge r.before out ∧ r.after ≠ none := by
-  have hf := run_recfacts cfg evs s0 (by rw [h0.log]; intro r hr; cases hr) r hr
-  obtain ⟨hd, out, ho, _, ha⟩ := hf.wrote hw
+/-- in a run without runtime switch no mirror loop is ever aimed at the primary store. -/
+theorem mirror_never_targets_primary (cfg : Cfg α) (s0 : Sys α) (evs : List (Ev α)) (h : RunOK cfg s0 evs) (c : Nat) :
+    PhaseP s0.primary ((run cfg s0 evs).ph c) :=
+  (run_inv cfg s0 evs h).phP c
+
+/-! ### wrappers -/
+
+theorem prefixKey_inj (p k1 k2 : Key) (h : prefixKey p k1 = prefixKey p k2) : k1 = k2 :=
+  List.append_cancel_left h
+
+theorem wrapKey_inj (ws : List Wrap) : ∀ k1 k2 : Key, wrapKey ws k1 = wrapKey ws k2 → k1 = k2 := by
+  induction ws with
+  | nil => intro k1 k2 h; exact h
+  | cons w ws ih =>
+    intro k1 k2 h
+    cases w with
+    | pfx p => exact prefixKey_inj p k1 k2 (ih _ _ h)
+    | metrics => exact ih _ _ h
+    | multi m => exact ih _ _ h
+
+theorem wrapKey_metrics (ws2 : List Wrap) : ∀ (ws1 : List Wrap) (k : Key),
+    wrapKey (ws1 ++ .metrics :: ws2) k = wrapKey (ws1 ++ ws2) k := by
+  intro ws1
+  induction ws1 with
+  | nil => intro k; rfl
+  | cons w ws ih => intro k; cases w <;> simp only [List.cons_append, wrapKey, ih]
+
+theorem wrapMirror_metrics (ws2 : List Wrap) : ∀ ws1 : List Wrap,
+    wrapMirror (ws1 ++ .metrics :: ws2) = wrapMirror (ws1 ++ ws2) := by
+  intro ws1
+  induction ws1 with
+  | nil => rfl
+  | cons w ws ih => cases w <;> simp only [List.cons_append, wrapMirror, ih]
+
+/-- the metrics wrapper is a pass-through: with it anywhere in the stack, a user call becomes the
+same store-level call. -/
+theorem metrics_passthrough_call (ws1 ws2 : List Wrap) (u : UCall α) :
+    wrapCall (ws1 ++ .metrics :: ws2) u = wrapCall (ws1 ++ ws2) u := by
+  simp only [wrapCall, wrapKey_metrics, wrapMirror_metrics]
+
+theorem metrics_passthrough_ev (ws1 ws2 : List Wrap) (e : UEv α) :
+    wrapEv (ws1 ++ .metrics :: ws2) e = wrapEv (ws1 ++ ws2) e := by
+  cases e with
+  | begin c u => simp only [wrapEv, metrics_passthrough_call]
+  | step c => rfl
+  | switch ix => rfl
+
+/-- hence every run through a stack with the metrics wrapper is, state for state, the run without it. -/
+theorem metrics_refines (cfg : Cfg α) (s : Sys α) (ws1 ws2 : List Wrap) (uevs : List (UEv α)) :
+    run cfg s (uevs.map (wrapEv (ws1 ++ .metrics :: ws2))) = run cfg s (uevs.map (wrapEv (ws1 ++ ws2))) := by
+  congr 1
+  apply List.map_congr_left
+  intro e _; exact metrics_passthrough_ev ws1 ws2 e
+
+def UNoSwitch : UEv α → Prop
+  | .switch _ => False
+  | _ => True
+
+theorem wrap_noSwitches (ws : List Wrap) (uevs : List (UEv α)) (h : ∀ e ∈ uevs, UNoSwitch e) :
+    NoSwitches (uevs.map (wrapEv ws)) := by
+  intro ev hev
+  obtain ⟨e, he, rfl⟩ := List.mem_map.1 hev
+  have := h e he
+  cases e <;> first | trivial | exact this
+
+/-! ### statements about records of a run, by backend -/
+
+theorem wrote_leaves_output (cfg : Cfg α) (s0 : Sys α) (evs : List (Ev α)) (h : RunOK cfg s0 evs)
+    (hk : s0.pri.kind ≠ .ml) (r : Rec α) (hr : r ∈ (run cfg s0 evs).log) (hw : r.outcome = .wrote) :
+    r.done = some true ∧ ∃ out, r.out = some out ∧ r.after = some out := by
+  obtain ⟨hd, out, ho, ha, _⟩ := (run_facts cfg s0 evs h r hr).1.wrote hw
   exact ⟨hd, out, ho, ha hk⟩
 
-theorem ml_no_lost_update (cfg : Cfg α) (s0 : Sys α) (h0 : Quiescent s0) (hk : s0.pri.kind = .ml)
-    (evs : List (Ev α)) (r : Rec α) (hr : r ∈ (run cfg s0 evs).log) (hw : r.outcome = .wrote) :
-    r.inp = r.before ∧ ∀ out, r.out = some out → cfg.merge r.inp out = some out → r.after = some out := by
-  have h1 := wrote_input_current cfg s0 h0 evs r hr hw
-  obtain ⟨_, out, ho, ha, _⟩ := ml_wrote_leaves_merge cfg s0 h0 hk evs r hr hw
-  refine ⟨h1, fun out' ho' hm => ?_⟩
-  rw [ho] at ho'; cases ho'; rw [ha, ← h1, hm]
+theorem ml_wrote_leaves_merge (cfg : Cfg α) (s0 : Sys α) (evs : List (Ev α)) (h : RunOK cfg s0 evs)
+    (hk : s0.pri.kind = .ml) (r : Rec α) (hr : r ∈ (run cfg s0 evs).log) (hw : r.outcome = .wrote) :
+    r.done = some true ∧ ∃ out v, r.out = some out ∧ cfg.merge r.before out = (v, true) ∧ r.after = some v := by
+  obtain ⟨hd, out, ho, _, ha⟩ := (run_facts cfg s0 evs h r hr).1.wrote hw
+  obtain ⟨v, hm, hv⟩ := ha hk
+  exact ⟨hd, out, v, ho, hm, hv⟩
+
+theorem ml_no_lost_update (cfg : Cfg α) (s0 : Sys α) (evs : List (Ev α)) (h : RunOK cfg s0 evs)
+    (hk : s0.pri.kind = .ml) (r : Rec α) (hr : r ∈ (run cfg s0 evs).log) (hw : r.outcome = .wrote) :
+    r.inp = r.before ∧ ∀ out, r.out = some out → cfg.merge r.inp out = (out, true) → r.after = some out := by
+  have h1 := wrote_input_current cfg s0 evs h r hr hw
+  obtain ⟨_, out, v, ho, hm, hv⟩ := ml_wrote_leaves_merge cfg s0 evs h hk r hr hw
+  refine ⟨h1, fun out' ho' hm' => ?_⟩
+  rw [ho] at ho'; cases ho'
+  rw [h1, hm] at hm'
+  rw [hv]; exact congrArg some (Prod.mk.inj hm').1
+
+/-- with a merge under which every recorded successful write leaves exactly `f`'s output (functions
+that only grow the value), the memberlist chain is a chain of outputs too. -/
+theorem successfulOut_eq_of (log : List (Rec α)) (k : Key)
+    (h : ∀ r ∈ log, r.outcome = .wrote → r.after = r.out) : successfulOut k log = successful k log := by
+  unfold successfulOut successful
+  apply List.map_congr_left
+  intro r hr
+  have hr' := (List.mem_filter.1 hr)
+  have hw : r.outcome = .wrote := by
+    have := hr'.2; simp only [Bool.and_eq_true, decide_eq_true_eq] at this; exact this.2
+  rw [h r (List.mem_reverse.1 hr'.1) hw]
+
+/-- the touch-free variant of the harness merge honours the Mergeable contract. -/
+theorem lawful_mergeWith_false : Lawful (Val.mergeWith false) := by
+  intro v out r h
+  simp only [Val.mergeWith] at h
+  split at h
+  · simp only [Bool.false_eq_true, if_false, Prod.mk.injEq, and_true] at h; exact h.symm
+  · simp at h
 
 end PfC07
